@@ -12,2167 +12,952 @@ Definition show_fres (r : fres) : string :=
   end.
 Definition check (rs : list rune) : string := digest (show_fres (format_res rs)).
 Definition full (rs : list rune) : string := show_fres (format_res rs).
-Eval vm_compute in ("<<<M3533>>>" ++ check (runes_of_ascii "options { // c1
-StringPrefixLenType
-    // c2
+Eval vm_compute in ("<<<M1447>>>" ++ check (runes_of_ascii "// top
+options // c0a
+  // c0b
+{ LittleEndian // c2a
+  // c2b
+= // c3a
+  // c3b
+false // c4
+; // c5a
+  // c5b
+StringPrefixLenType = u16 // c8
+; // c9
+ArrayPrefixLenType // c10a
+  // c10b
 =
-    // c3
-u32 // c4a
-  // c4b
-; // c5
-ArrayPrefixLenType // c6a
-  // c6b
-=
-    // c7
-u8 // c8
-; // c9a
-  // c9b
-FixedStringPadFromLeft = // c11
-false // c12a
-  // c12b
-;
+    // c11
+u64 ;
     // c13
-}
-    // c14
-packet // c15
-Logon { // c17
-i8 // c18a
+FixedStringPadFromLeft // c14a
+  // c14b
+= true // c16
+; // c17a
+  // c17b
+FixedStringPadChar // c18a
   // c18b
-venue ,
-    // c20
-int16 f1
-    // c22
-,
-    // c23
-zchar[ // c24
-8 // c25a
-  // c25b
-] // c26a
-  // c26b
-Acct // c27a
-  // c27b
-,
+= // c19
+' ' ; // c21
+} // c22a
+  // c22b
+packet Logon // c24a
+  // c24b
+{
+    // c25
+u16 // c26
+Tail ,
     // c28
-repeat // c29a
-  // c29b
-InNote16 { // c31
-InQty73 // c32
-{ // c33
-float32 // c34a
+repeat // c29
+string x
+    // c31
+, // c32
+i16 // c33a
+  // c33b
+count // c34a
   // c34b
-tag7 // c35
-, // c36
-}
-    // c37
-, f32 // c39
-Acct // c40
-, // c41a
-  // c41b
-zchar[ // c42a
-  // c42b
-5
-    // c43
-] sym // c45
-, // c46a
-  // c46b
-} , // c48
-uint16 // c49a
-  // c49b
-Side2 // c50a
-  // c50b
-, i32 // c52a
-  // c52b
-lastPx // c53
-, } // c55
-packet Fill { // c58
-repeat // c59
-InOrderid15 // c60
-{ // c61
-zchar[ // c62
-8
-    // c63
-] sym
-    // c65
-, // c66a
-  // c66b
-repeat // c67a
-  // c67b
-char[ // c68
-2 // c69
-]
-    // c70
-OrderId ,
-    // c72
-repeat Logon
-    // c74
-, // c75
-InQty82 // c76
-{ // c77a
-  // c77b
-char[] // c78
-Tail // c79
-, repeat // c81
-Logon // c82
-,
-    // c83
-float64 price , // c86
-f64 Side2
-    // c88
-, // c89
-}
-    // c90
-, char[ // c92
-12 // c93a
-  // c93b
-] // c94
-venue
-    // c95
-, // c96
-char[ // c97a
-  // c97b
-4 // c98a
-  // c98b
-] Px // c100
-, } , // c103
-@rightPad
-    // c104
-( // c105
+, @leftPad
+    // c36
+( // c37
 '0'
-    // c106
-)
-    // c107
-char[ // c108a
-  // c108b
-2 ]
-    // c110
-venue
-    // c111
+    // c38
+) // c39a
+  // c39b
+char[ // c40a
+  // c40b
+3 ] // c42
+Note // c43a
+  // c43b
+, } packet // c46a
+  // c46b
+Fill // c47
+{ // c48a
+  // c48b
+}
+    // c49
+packet // c50
+Heartbeat
+    // c51
+{ // c52a
+  // c52b
+}
+    // c53
+packet // c54
+Reject // c55a
+  // c55b
+{ string // c57a
+  // c57b
+msgKind
+    // c58
+, // c59a
+  // c59b
+repeat // c60
+Logon // c61a
+  // c61b
+, // c62a
+  // c62b
+InFlags25 // c63
+{
+    // c64
+repeat
+    // c65
+InPrice29 {
+    // c67
+u8
+    // c68
+price // c69
+, // c70
+Logon , // c72a
+  // c72b
+repeat // c73a
+  // c73b
+char[ // c74a
+  // c74b
+1
+    // c75
+] // c76
+Note // c77
+, // c78a
+  // c78b
+} // c79a
+  // c79b
 ,
-    // c112
-InPrice99
-    // c113
-{ InAcct72
+    // c80
+char[] x ,
+    // c83
+Fill
+    // c84
+,
+    // c85
+} ,
+    // c87
+repeat // c88a
+  // c88b
+Heartbeat // c89a
+  // c89b
+,
+    // c90
+} // c91
+root packet Order // c94
+{ InNote88 // c96a
+  // c96b
+{ // c97
+repeat
+    // c98
+i32 Acct , // c101
+repeat i16 clOrdID // c104
+, // c105a
+  // c105b
+repeat // c106
+Logon , // c108
+}
+    // c109
+, // c110a
+  // c110b
+u16 // c111
+tag7 // c112
+, // c113a
+  // c113b
+match
+    // c114
+tag7
     // c115
-{ u8 // c117a
-  // c117b
-pad0 , } // c120a
-  // c120b
+as // c116
+Body { // c118a
+  // c118b
+[
+    // c119
+14
+    // c120
 ,
     // c121
-u32
-    // c122
-OrderId ,
-    // c124
-Logon // c125
-, // c126a
-  // c126b
-} // c127
-, // c128
-} // c129a
-  // c129b
-root
-    // c130
-packet // c131
-Reject // c132
-{ // c133a
-  // c133b
-zchar[
-    // c134
-9 // c135
-] msgKind
-    // c137
-, // c138a
-  // c138b
-u32 // c139a
-  // c139b
-venue , // c141a
-  // c141b
-u16 // c142
-seqNo // c143a
-  // c143b
-@lengthOf(
-    // c144
-Body // c145a
-  // c145b
-) // c146
-, // c147
-match // c148
-venue as Body // c151
-{ // c152
-57 // c153
-: // c154a
-  // c154b
-Fill
-    // c155
-,
-    // c156
-8 : Logon // c159
+22 // c122a
+  // c122b
+] : Logon // c125a
+  // c125b
+, // c126
+55 // c127a
+  // c127b
+: // c128a
+  // c128b
+Heartbeat // c129
+, // c130
+93 // c131a
+  // c131b
+:
+    // c132
+Reject , // c134
+13 // c135a
+  // c135b
+: // c136
+Fill // c137
+, } // c139
 , }
-    // c161
-,
-    // c162
-u16
-    // c163
-Tail // c164
-@calculatedFrom(
-    // c165
-""CRC32""
-    // c166
-) , } ")).
-Eval vm_compute in ("<<<M975>>>" ++ check (runes_of_ascii "MetaData BodyLength
-    { zchar[ 42 // trailing space 
-] falsey
-    ,
-x_y_z trueish `{ , }` , options1 Header
-    `
-` , uint8
-    Header `tab	here` ,
-uint8
-    // packet A { u8 x, }
-    zchar
-    ,
-float64 len
-, } packet//x
-chars {  zchar[ 00 ]
-    options1 ,	zchar[ // c
-7 ] Header , @tag( 0	)char[] MetaDataX `line1
-line2`
-,	repeat
-metadata{ i64
-// packet A { u8 x, }
-// @lengthOf(
-MetaDataX , int8 o ,leftPad Pad ,
-string	Z9_ `u8 x,`
-, } , @leftPad
-    ( '0' ) u64 calculatedFrom
-// trailing space 
-// c
-@calculatedFrom(
-""a\""b"" )  , @lengthOf( leftPad
-    ) repeat Foo `line1
-line2`,}
-    packet options1
-//x
-//	t
-{ @tag(00	)body
-asx,
-// a // b
-// " ++ [128512]%N ++ runes_of_ascii " emoji
-repeat MetaDataX{ repeat i64
-    u8x `" ++ [233]%N ++ runes_of_ascii "`, } , pack @calculatedFrom( ""CRC32"" ) `
-`
-,  repeat Pad { Foo{
-    repeat i8i8, MetaDataX ,
-    // @lengthOf(
-    lengthOf @calculatedFrom(""abc"" )`// not a comment`	, /// triple
-}	,}  , float64 string_ @calculatedFrom( //
-""it's""	)
-`u8 x,` ,
-    i8  Z9_
-@lengthOf(_x ),
-BodyLength matchKey `tab	here`, uint64
-    // " ++ [128512]%N ++ runes_of_ascii " emoji
-    As  @calculatedFrom( ""// no comment"" ) ,  } packet leftPad { match packetx as// trailing space 
-Foo
-{ [ ""x y"" ,
-    3]
-    // " ++ [128512]%N ++ runes_of_ascii " emoji
-    : As ,
-00:
-    leftPad
-// a // b
-//	t
-, [""\n"" , """"
-    ] : MetaDataX	,
-00
-    : x
-"""" : int
-    , }, i32
-    // " ++ [27880; 37322]%N ++ runes_of_ascii "
-    Foo,repeat string
-roots  , repeat body chars `" ++ [28040; 24687; 31867; 22411]%N ++ runes_of_ascii "`,
-int `" ++ [233]%N ++ runes_of_ascii "`
-    , @rightPad (
-' ' ) string BodyLength, @lengthOf(lengthOf // " ++ [128512]%N ++ runes_of_ascii " emoji
-)
-    char uint8x `line1
-line2` , zchar[
-00 ]
-    repeatCount	@calculatedFrom( """ ++ [28040; 24687]%N ++ runes_of_ascii """ )
-, @calculatedFrom( ""a	b"") falsey
-    //x
-    @calculatedFrom( ""1"" )
-    `crlf
-line` , } //x
-packet Header { // trailing space 
-@calculatedFrom(
-""" ++ [28040; 24687]%N ++ runes_of_ascii """ ) int64 u	`crlf
-line`,
-@calculatedFrom(
-""CRC32"" ) // packet A { u8 x, }
-int64 uint8x,
-char[255
-] Foo `
-`
-    ,}
+    // c141
 ")).
-Eval vm_compute in ("<<<M622>>>" ++ check (runes_of_ascii "
-packet
-    Logon {
-@tag( 007 )  packetx {
-    charz
-    @calculatedFrom( ""\n"") , } , } packet u128
-    { @calculatedFrom( ""1""
-//x
-// packet A { u8 x, }
-)_x@calculatedFrom( """" ) ,} options { matchKey= 0123456789 ; len = ""1"" ;//x
-Z9_= 255  Packet= '\x00' // `tick` ""quote"" 'q'
-}	root packet// packet A { u8 x, }
-Z9_ {
-@calculatedFrom(
-//
-// trailing space 
-""" ++ [233]%N ++ runes_of_ascii "t" ++ [233]%N ++ runes_of_ascii """ ) char[ 00 ]x_y_z @lengthOf( T )// c
-,As @lengthOf(
-    asx ) `tab	here` , x matchKey `{ , }`	, @leftPad ( )  @rightPad
-    () @lengthOf(a1 )float
-@lengthOf( o )`doc`
-, } root packet int
-// `tick` ""quote"" 'q'
-// c
-{@lengthOf(BodyLength ) repeat //
-zchar[
-42]
-u8x
-    `tab	here`
-,
-@leftPad  (
-    ' ' ) @calculatedFrom(""a\\"") repeat  char[
-    007
-// a // b
-//	t
-] matchKey `tab	here` , Header @lengthOf( A ), repeat roots { repeat u
-    // @lengthOf(
-    { match calculatedFrom as o {
+Eval vm_compute in ("<<<M239>>>" ++ check (runes_of_ascii "packet x_y_z {
+packetx { i16 pack `doc` ,
+    repeat char[
     255
-:metadata } , match
-BodyLength as o {""a	b"" :lengthOf // @lengthOf(
-, },string	uint8x , // c
-char[]
-    lengthOf// " ++ [27880; 37322]%N ++ runes_of_ascii "
-,}
-    , match asx as
-    pack {
-    00
-:metadata
-// `tick` ""quote"" 'q'
-// @lengthOf(
-,
-[""1"", ""abc"" , """ ++ [28040; 24687]%N ++ runes_of_ascii """
-    ,255
-    ,	4294967296 , 65535,
-255, // a // b
-255  ]: //x
-o ,
-[ 00
-    ,""it's""	, 3
-/// triple
-// c
-,""" ++ [128512]%N ++ runes_of_ascii """ // " ++ [27880; 37322]%N ++ runes_of_ascii "
-]:calculatedFrom , [
-00,
-""{,}""
-    ] : matchKey ,	""abc""
-// trailing space 
-//x
-: // @lengthOf(
-u ""x y"" : i8i8 // " ++ [27880; 37322]%N ++ runes_of_ascii "
-, }, }, crc @lengthOf(
-leftPad ) `{ , }` , stringy @calculatedFrom( ""x y"" ) `// not a comment` , uint16 calculatedFrom , }
-")).
-Eval vm_compute in ("<<<M3720>>>" ++ check (runes_of_ascii "
-packet crc{ //x
-	u16	// " ++ [128512]%N ++ runes_of_ascii " emoji
-
-  charz ,
-    @leftPad  ( ' ' ) match
-
-    rootA
-
-as// packet A { u8 x, }
-BodyLength {
-
-""`tick`""
-:
-
-    u,
-
-    } ,  @tag(
-
-1
-
-    )	Logon`" ++ [233]%N ++ runes_of_ascii "`  , uint16
-metadata
-	`// not a comment` ,	//
-      @rightPad	( )
-    char[00
-	]body 
-    // @lengthOf(
-
-// trailing space 
-    ,BodyLength
-
-    { match
-f32a
-    as 	 // packet A { u8 x, }
-    calculatedFrom 
-    // a // b
-	// " ++ [128512]%N ++ runes_of_ascii " emoji
-  {
-	255 :  len
-, 65535 : i8i8
-// " ++ [128512]%N ++ runes_of_ascii " emoji
-	// " ++ [27880; 37322]%N ++ runes_of_ascii "
-    007
-    :uint8x ,
-	}
-	    //
-		,	repeat
-	repeatCount
-    // @lengthOf(
-	/// triple
-    { repeat 
-char[
-	1 ]  string_ , repeat string 
-roots
-,
-falsey  len//x
-    	`
-` 
-, repeat
-    i64 
-calculatedFrom,
-
-}
-
-,
-u16//
-leftPad@calculatedFrom(
-""x y"" //	t
-    )  `// not a comment`, } 	 // `tick` ""quote"" 'q'
-      ,
-repeat zchar{	f32
-	packetx	@lengthOf( 
-asx
-)	, a1 stringy
-
+]leftPad
     ,
-string_ BodyLength 
-// packet A { u8 x, }
-		`" ++ [233]%N ++ runes_of_ascii "`, }
-
-    ,
-
-    @rightPad
-(
-
-'0'
-
-    )
-
-repeat
-
-    o
-{	repeat
-float	f32a
-    ,
-char
-packetx
-    ,	char[]
-stringy	// " ++ [27880; 37322]%N ++ runes_of_ascii "
-,
-	}
-,
-	}	root packet
-	float  // trailing space 
-{ uint16
-body
-	@lengthOf(body  )	,	match
-
-a1 
-as
-
-    Header
-
-{ ""1""
-	:
-	Z9_ ,	}
-    ,
-}
-
-    options  {	MetaDataX=
-	255
-
-    ; charz
-
-= '0'
-
-;
-matchKey =
-	""`tick`"" ;
-	rootA
-
-    = //x
-  '0'
-	; }
-")).
-Eval vm_compute in ("<<<M577>>>" ++ check (runes_of_ascii "
-packet	matchKey
-// @lengthOf(
-// " ++ [128512]%N ++ runes_of_ascii " emoji
-{ string stringy `tab	here`,} root packet
-Z9_{@lengthOf( /// triple
-o ) @calculatedFrom( """ ++ [128512]%N ++ runes_of_ascii """ )@lengthOf( matchKey // packet A { u8 x, }
-)
-u{ string
-    //	t
-    msg_type
-    , pack{ uint64 As@lengthOf(
-u128 ), // `tick` ""quote"" 'q'
-repeat i64_ `crlf
-line`
+} , u8x , match o as roots {
+[ // a // b
+0123456789 ]
+    // packet A { u8 x, }
+    : x_y_z [""a\\""
+    ] : packetx
     , }
-, } ,
-@lengthOf(
-    len ) match rootA as
-stringy	{
-[
-    65535
-    ,
-65535 ,	""`tick`""
-    , ""a\""b"" ,65535
-,
-// `tick` ""quote"" 'q'
-// a // b
-""abc"",  10] //x
-:options1
-, ""1"" :
-a1
-    // trailing space 
-    , 255	: As
-, """"
-:
-metadata ,4294967296: // @lengthOf(
-body
-, } ,  repeat // " ++ [27880; 37322]%N ++ runes_of_ascii "
-u8x , @lengthOf( asx )@tag( 10 )@calculatedFrom( ""\n"" )match Logon as options1 { ""CRC32"":
-    // c
-    charz ,[
-""\n"" ,
-10 ,  65535 , """ ++ [233]%N ++ runes_of_ascii "t" ++ [233]%N ++ runes_of_ascii """] :
-    As // " ++ [128512]%N ++ runes_of_ascii " emoji
-,// packet A { u8 x, }
-[ 4294967296 ] :repeatCount
-    , },
-    @tag(
-007 ) @leftPad ('0' ) @leftPad(' ')i16 u128 @calculatedFrom( ""packet"" )
-    ,  @leftPad
-(// " ++ [27880; 37322]%N ++ runes_of_ascii "
-)x @calculatedFrom(""\n""
+,  repeat charz{	int32 i64_ `{ , }`,
+}  ,  }
+    packet x_y_z { @calculatedFrom(
+""CRC32""
     )
-`a\` ,
-repeat zchar{ zchar[ 007]Foo
-    ,
-}
-,@tag( // `tick` ""quote"" 'q'
-42 ) match
-    chars as metadata { [""{,}"" ] : calculatedFrom ,0 :
-    x
-, 4294967296 :leftPad
-    , [//	t
-42 ] :	trueish// packet A { u8 x, }
-}, } options{  }")).
-Eval vm_compute in ("<<<M3886>>>" ++ check (runes_of_ascii "MetaData
-// " ++ [128512]%N ++ runes_of_ascii " emoji
-	// trailing space 
-
-o 
-{ 
-char[	255
-] 	 // @lengthOf(
-BodyLength, }packet 
-crc{@tag(
-
-7
-	)calculatedFrom @lengthOf( Header
-	) , len
-{ float	{ i32
-T  ,stringy	string_
-    // c
-
-,char[	// " ++ [27880; 37322]%N ++ runes_of_ascii "
-      65535
-]
-
-Packet @lengthOf( a1
-)
-``
-,falsey{
-
-    u16 Logon	`{ , }`
-, 
-}
+@tag( 00 ) @lengthOf(x ) match As as
+stringy
+    { 1	: i64_
+    ,// " ++ [27880; 37322]%N ++ runes_of_ascii "
+[""it's""
 ,
-} 
-,
-repeat 	 /// triple
-	falsey
-,repeat u8 Logon,
-
-} 
-,  zchar[	65535  ] lengthOf 
-@lengthOf( asx )
-`line1
-line2`
-    ,@rightPad (
-
-    '0') 
-int16 f32a ,
-
-@rightPad	( 	 // packet A { u8 x, }
-    '\x00' 
-)
-	char[] len 
-	    // packet A { u8 x, }
-  	`" ++ [28040; 24687; 31867; 22411]%N ++ runes_of_ascii "` , match string_ 
-as  string_ 
-  /// triple
-    {  [
-""a\\""
-, 10
-	,
-
-    007, 	 //	t
-	  0123456789
-    ]	: As ,
-[ 
-""`tick`""
-]	:	//
-metadata , ""\n"" :falsey  ,  // `tick` ""quote"" 'q'
-	[
-3
-
-,  // " ++ [27880; 37322]%N ++ runes_of_ascii "
-	""" ++ [233]%N ++ runes_of_ascii "t" ++ [233]%N ++ runes_of_ascii """
-	, 	 //	t
-  ""CRC32"" ]:
-lengthOf	, 00 :
-x_y_z
+""1"" ,
+""x y"" //
+, 4294967296
     ,
-
-}, packetx
-
-    {
-    repeat
-    a1 `it's` 	 // packet A { u8 x, }
-
-	, stringy
-
-    `{ , }` ,	match	T as
-    MetaDataX // @lengthOf(
-  	{  ""CRC32""  :
-lengthOf
-}
+""\n"" , ""x y"" ] :
+u128 ,00 : calculatedFrom
+,	[ // " ++ [128512]%N ++ runes_of_ascii " emoji
+4294967296
+    , ""// no comment""
+    , 42
     ,
-	}
-
-    ,  }  MetaData	tag	{ 	 //x
-	}	packet 
-Z9_ {
-
-i16  rootA 
-	// packet A { u8 x, }
-
-// @lengthOf(
-
+3,""{,}""
+    // packet A { u8 x, }
+    ]  :	charz} ,
+@calculatedFrom( ""a\\""
+)  Logon A ,chars  @lengthOf(Logon
+), @rightPad
+('0' )@tag(	0 ) @rightPad  ( '0' ) string Foo // trailing space 
+`a\`
+    ,
+}  packet packetx
+{repeat i64_
+    {  o @lengthOf(A) ,
+    },@tag(
+    42
+    ) repeat char[]
+    crc ,
+    @leftPad ( ) u16 roots , falsey @lengthOf( As) , repeat  Foo{ float32 f32a@calculatedFrom( ""`tick`"" )
+, len
 `
-`  // " ++ [27880; 37322]%N ++ runes_of_ascii "
-
-	,//	t
-      }")).
-Eval vm_compute in ("<<<M4194>>>" ++ check (runes_of_ascii "  MetaData As
-{ u  //
-	matchKey
-	,char[]
-T
-
-, char[] Foo 	 // @lengthOf(
-	`{ , }`	,
-}
-	root
-	packet
-
-    T	{ @lengthOf( tag
-    ) 
-@tag(0123456789
-
+`
+// a // b
+/// triple
+,
+    // packet A { u8 x, }
+    }, @leftPad
+('\x00' )	T@calculatedFrom( ""a	b"" ) `" ++ [28040; 24687; 31867; 22411]%N ++ runes_of_ascii "`,  char[]
+// c
+// " ++ [128512]%N ++ runes_of_ascii " emoji
+trueish `u8 x,` , @lengthOf(falsey
     )
     match
-	repeatCount
+    // " ++ [27880; 37322]%N ++ runes_of_ascii "
+    rootA
+    as BodyLength { // " ++ [128512]%N ++ runes_of_ascii " emoji
+[
+""CRC32"" ]: x ,
+// @lengthOf(
+// c
+42
+:
+// packet A { u8 x, }
+// `tick` ""quote"" 'q'
+BodyLength , // trailing space 
+} ,
+    }")).
+Eval vm_compute in ("<<<M1955>>>" ++ check (runes_of_ascii "root packet a1 {
+    // " ++ [27880; 37322]%N ++ runes_of_ascii "
+    repeat leftPad {
+        // a // b
+        lengthOf,
+    },
+    @tag(0123456789)
+    int64 repeatCount ``,
+    match int as len {
+        1 : repeatCount,
+        """" : lengthOf,
+        [
+            ""a\""b"", 255, 7, ""it's"", 255,
+            00, 7, ""`tick`""
+        ] : msg_type,
+        42 : body,
+    },
+    repeat asx {
+        charz {
+            char[007] f32a,
+            // a // b
+        },
+        match u as Z9_ {
+            """ ++ [233]%N ++ runes_of_ascii "t" ++ [233]%N ++ runes_of_ascii """ : float,
+            // c
+            ""1"" : Pad,
+            ["""", 10] : Header,
+            [42] : repeatCount,
+            00 : T,
+        },
+    },
+    @rightPad(' ')
+    falsey,
+    @tag(0)
+    @calculatedFrom(""1"")
+    @leftPad('\x00')
+    o,
+}
+
+MetaData i64_ {
+}
+
+packet x {
+    @lengthOf(Header)
+    repeat msg_type {
+        repeat char[0123456789] u,
+        // packet A { u8 x, }
+        uint32 BodyLength @lengthOf(_x) `crlf
+                line`,
+    },
+}
+
+MetaData Header {
+    Header options1,
+    f32a stringy,
+    char[] uint8x `a\`,
+    char[1] u128,
+    i32 Z9_,
+    float32 msg_type,
+}")).
+Eval vm_compute in ("<<<M168>>>" ++ check (runes_of_ascii "packet // trailing space 
+crc {	match	trueish
+    as pack {[// trailing space 
+007
+    , ""`tick`""
+    , 42 ,3 ,
+""x y"" ] :
+    // " ++ [128512]%N ++ runes_of_ascii " emoji
+    u128
+, } , // packet A { u8 x, }
+@tag( 255
+)
+    lengthOf
+    // " ++ [128512]%N ++ runes_of_ascii " emoji
+    lengthOf , repeat zchar[ 0123456789]
+    calculatedFrom`" ++ [233]%N ++ runes_of_ascii "` , // trailing space 
+@calculatedFrom(
+""" ++ [28040; 24687]%N ++ runes_of_ascii """ ) repeat/// triple
+f32a ,repeat char[]
+// packet A { u8 x, }
+/// triple
+msg_type
+`u8 x,` ,
+    x @calculatedFrom( ""{,}"" ) , f32 uint8x// packet A { u8 x, }
+`two words`,
+    char[  0 ]
+i8i8 , @calculatedFrom(
+""1"" ) rootA BodyLength,
+repeat string a1 //	t
+, } root// " ++ [128512]%N ++ runes_of_ascii " emoji
+packet
+// c
+// " ++ [27880; 37322]%N ++ runes_of_ascii "
+metadata
+{ @calculatedFrom( ""abc"" ) options1 // trailing space 
+Header ,
+// @lengthOf(
+// " ++ [27880; 37322]%N ++ runes_of_ascii "
+}root
+packet charz{
+repeat stringy ,@tag( 3 // trailing space 
+)
+    Foo x_y_z`{ , }` ,
+    char[
+    1]
+Logon
+@lengthOf( float)
+,	int8
+    int
+    ,
+    } //	t
+packet Packet { char[] zchar
+//x
+// " ++ [128512]%N ++ runes_of_ascii " emoji
+`
+`
+    // c
+    , }
+")).
+Eval vm_compute in ("<<<M1553>>>" ++ check (runes_of_ascii "packet options1 {
+    repeat matchKey `doc`,
+    char[] string_ `
+        `,// packet A { u8 x, }
+    uint16 T,
+    repeatCount _x,
+}
+
+packet msg_type {
+    @lengthOf(Pad)
+    asx @calculatedFrom(""\" ++ [233]%N ++ runes_of_ascii """),
+    @tag(4294967296)
+    Logon `a\`,
+    @tag(0)
+    crc @lengthOf(charz) `u8 x,`,
+    char[0] f32a,
+    u8 A `line1
+        line2`,
+    Z9_ u `{ , }`,
+    repeat uint8x `" ++ [28040; 24687; 31867; 22411]%N ++ runes_of_ascii "`,
+    int8 Packet @calculatedFrom(""{,}""),
+    // packet A { u8 x, }
+}
+
+packet A {
+    // trailing space 
+    // trailing space 
+    @tag(3)
+    @tag(1)
+    u16 A,
+    @tag(1)
+    match roots as pack {
+        // c
+        [""CRC32""] : i8i8,
+        ""a\\"" : trueish,
+        [""{,}"", """ ++ [28040; 24687]%N ++ runes_of_ascii """] : falsey,
+        // `tick` ""quote"" 'q'
+    },
+    @rightPad(' ')
+    int16 Packet `
+        `,// `tick` ""quote"" 'q'
+    repeat zchar[1] Pad,// a // b
+}")).
+Eval vm_compute in ("<<<M1122>>>" ++ check (runes_of_ascii "// top
+root // c0
+packet // c1
+msg_type // c2
+{ // c3
+i64 // c4
+options1 // c5
+, // c6
+@lengthOf( // c7
+f32a // c8
+) // c9
+repeat // c10
+uint16 // c11
+Foo // c12
+, // c13
+@calculatedFrom( // c14
+""x y"" // c15
+) // c16
+repeat // c17
+int64 // c18
+pack // c19
+, // c20
+@leftPad // c21
+( // c22
+' ' // c23
+) // c24
+uint8 // c25
+Foo // c26
+, // c27
+} // c28
+packet // c29
+rootA // c30
+{ // c31
+f32a // c32
+x // c33
+`two words` // c34
+, // c35
+char // c36
+asx // c37
+@lengthOf( // c38
+falsey // c39
+) // c40
+`u8 x,` // c41
+, // c42
+@lengthOf( // c43
+i64_ // c44
+) // c45
+uint16 // c46
+chars // c47
+, // c48
+@tag( // c49
+0 // c50
+) // c51
+string // c52
+_x // c53
+@calculatedFrom( // c54
+""abc"" // c55
+) // c56
+`// not a comment` // c57
+, // c58
+} // c59
+")).
+Eval vm_compute in ("<<<M1410>>>" ++ check (runes_of_ascii "// top
+packet // c0
+P1 {
+    // c2
+u8 // c3
+a // c4
+, // c5
+}
+    // c6
+packet P2 // c8
+{ // c9
+P1
+    // c10
+, // c11
+} packet // c13
+P3
+    // c14
+{ P2 // c16a
+  // c16b
+, P1
+    // c18
+, }
+    // c20
+packet // c21a
+  // c21b
+P4
+    // c22
+{ repeat P3
+    // c25
+,
+    // c26
+P2 // c27
+, // c28
+}
+    // c29
+root packet P5
+    // c32
+{ // c33
+P4 // c34a
+  // c34b
+, // c35a
+  // c35b
+P3 // c36
+, // c37
+P1 // c38
+, u8
+    // c40
+K , // c42
+match K // c44
+as
+    // c45
+Body // c46a
+  // c46b
+{ // c47
+4 : // c49
+P4 // c50
+, 3
+    // c52
+:
+    // c53
+P3 , 2
+    // c56
+: // c57a
+  // c57b
+P2
+    // c58
+, // c59
+1
+    // c60
+: // c61
+P1 , } // c64
+, // c65
+}
+    // c66
+")).
+Eval vm_compute in ("<<<M1768>>>" ++ check (runes_of_ascii "  packet
+	BodyLength
+	{  repeat  string
+As
+	`{ , }`
+    , @tag(4294967296  )
+
+    match
+Pad
+as
+lengthOf{//	t
+	  007 :  // `tick` ""quote"" 'q'
+	  i8i8 	 /// triple
+
+,""a\""b""
+
+    : //x
+	msg_type
+,	}  ,
+repeat
+uint32
+Z9_ ,
+@tag(
+00	)// `tick` ""quote"" 'q'
+    	charz
+
+    , string
+	    // trailing space 
+i8i8// packet A { u8 x, }
+    @lengthOf(
+BodyLength ),	@calculatedFrom( ""{,}"") 
+// a // b
+  @leftPad	// " ++ [27880; 37322]%N ++ runes_of_ascii "
+      (
+    ) 
+leftPad
+
+metadata, 
+      //
+
+  // " ++ [128512]%N ++ runes_of_ascii " emoji
+	string  i8i8
+``	,uint64  trueish
+	@calculatedFrom( ""1""
+	/// triple
+  	// " ++ [27880; 37322]%N ++ runes_of_ascii "
+    )  `
+` ,  }")).
+Eval vm_compute in ("<<<M1383>>>" ++ check (runes_of_ascii "packet A // c1
+{ // c2
+u8 // c3
+a
+    // c4
+,
+    // c5
+}
+    // c6
+packet
+    // c7
+B { // c9
+u16 // c10
+b , // c12
+}
+    // c13
+root
+    // c14
+packet // c15
+P { u8 // c18
+K1 // c19a
+  // c19b
+, // c20a
+  // c20b
+u8 K2 , // c23a
+  // c23b
+match K1
+    // c25
+as
+    // c26
+M1 // c27
+{ 1 // c29
+: // c30
+A // c31
+, // c32a
+  // c32b
+} // c33
+, // c34
+match // c35
+K2 // c36a
+  // c36b
+as
+    // c37
+M2 // c38
+{ // c39
+1 : // c41a
+  // c41b
+B // c42a
+  // c42b
+, // c43
+} // c44a
+  // c44b
+, } ")).
+Eval vm_compute in ("<<<M163>>>" ++ check (runes_of_ascii "
+packet
+    float {
+    char[ 00 ] u8x ,	}
+packet // " ++ [128512]%N ++ runes_of_ascii " emoji
+A // @lengthOf(
+{ string
+i8i8 , A //x
+@calculatedFrom(
+""a	b"" ) `a\`, @tag( 1 )
+    chars	@lengthOf( Pad ) `u8 x,`
+    , /// triple
+match repeatCount as stringy { 42 :
+x
+3: // @lengthOf(
+tag, [ 00 , 0123456789
+] : packetx , [ """ ++ [28040; 24687]%N ++ runes_of_ascii """	, ""packet""
+]: string_ , }	,
+}options // @lengthOf(
+{ i8i8= """ ++ [233]%N ++ runes_of_ascii "t" ++ [233]%N ++ runes_of_ascii """ Foo
+    = false
+    // packet A { u8 x, }
+    ;  Pad =
+' '
+    ;}")).
+Eval vm_compute in ("<<<M1816>>>" ++ check (runes_of_ascii "MetaData
+	len /// triple
+	  {  //
+      f64
+    T  `u8 x,`
+
+    ,rootA
+
+stringy
+,  zchar
+
+repeatCount`say ""hi""`
+
+    ,MetaDataX	As
+,  i8i8
+string_
+    , x_y_z f32a, 
+}
+	options 	 // c
+	{  Logon 
+      //
+  =
+    string	float	=
+string  A  =""abc"" 	 /// triple
+
+;  
+      //
+	A  =
+
+    ""\" ++ [233]%N ++ runes_of_ascii """ Logon  = 7
+
+}
+options
+    { }
+
+options	{
+packetx
+
+=
+	""abc"" 	 // c
+	;
+x
+
+=true	}
+
+")).
+Eval vm_compute in ("<<<M87>>>" ++ check (runes_of_ascii "options {
+    x_y_z	= false
+;
+    stringy =
+    """ ++ [233]%N ++ runes_of_ascii "t" ++ [233]%N ++ runes_of_ascii """;
+    // trailing space 
+    crc =
+""" ++ [128512]%N ++ runes_of_ascii """  i8i8=
+'0'
+    ;
+}
+    // `tick` ""quote"" 'q'
+    packet _x { match u128 as tag { ""CRC32"" :stringy , 3
+    //	t
+    : repeatCount ,// " ++ [27880; 37322]%N ++ runes_of_ascii "
+""\" ++ [233]%N ++ runes_of_ascii """ :	float,	[
+"""" ,  """"	, """ ++ [28040; 24687]%N ++ runes_of_ascii """ , ""a\""b"" ]
+    : u8x ,""1""
+:
+    x_y_z
+, } , }packet stringy {
+}
+// " ++ [128512]%N ++ runes_of_ascii " emoji
+")).
+Eval vm_compute in ("<<<M1476>>>" ++ check (runes_of_ascii "
+options{ LittleEndian 
+=
+    true ;	} packet
+
+    Logon
+{ u8 x
+
+,
+	}
+    packet 
+Logout  {u16
+    reason
+	,}root
+	packet Frame { i32 Kind
+
+,
+i32 Kind2, match
+Kind	as 
+Body
+    {	1 :Logon 
+,[2,3
+,4 ]
+
+    :
+    Logout
+
+, 100
+	:	Logon
+	,	} , match	Kind2
 
     as
-    BodyLength{	""" ++ [233]%N ++ runes_of_ascii "t" ++ [233]%N ++ runes_of_ascii """
-    :o 
-, 65535
+	Trailer{ 0
+: Logout ,
 
-    :
-    float
-,""a	b""
-
-    :
-	_x
-
-    , [
-	""x y"" ,65535 
-    // packet A { u8 x, }
-  //x
-	] 
-:string_ , }
-,  }
-	root 
-packet
-
-    _x {
-
-match
-	msg_type  
-  // trailing space 
-    as f32a{ 
-""\" ++ [233]%N ++ runes_of_ascii """
-    :Header
-3 :
-repeatCount
-[
-    7	,	""a	b""
-    ]:
-_x 
-,
-""it's""
-    :
-
-    stringy
-    10:
-    //	t
-
-/// triple
-	  As
-, ""it's""
-: lengthOf }
-	, @calculatedFrom(
-	""packet"") int64  // `tick` ""quote"" 'q'
-      falsey
-, @leftPad// packet A { u8 x, }
-( 
-) 
-    //	t
-  //
-
-char[
-1 ]
-
-len// @lengthOf(
-
-@lengthOf(	Foo )
-, 
-chars T, zchar[ 
-007
-
-    ]options1 , 
-match
-
-f32a
-    as asx 
-{ [ ""1""
-
-    ]
-: 
-matchKey
-,
-""" ++ [28040; 24687]%N ++ runes_of_ascii """
-	: As
-, 
-	// c
-4294967296
-	: 
-options1  , }
-	,
-	} MetaData
-	o 
-{ zchar[ 42
-] 
-repeatCount
-
-, packetx
-
-    falsey,	Packet 
-options1
-
-`{ , }`
+}
 
 ,
-}options {	falsey=	""a\\""}// " ++ [128512]%N ++ runes_of_ascii " emoji
- 
-")).
-Eval vm_compute in ("<<<M3209>>>" ++ check (runes_of_ascii "// top
-root
-    // c0
-packet
-    // c1
-msg_type
+	}")).
+Eval vm_compute in ("<<<M1675>>>" ++ check (runes_of_ascii "// top
+packet A {
     // c2
-{
-    // c3
-i64
-    // c4
-options1
-    // c5
-,
-    // c6
-@lengthOf(
-    // c7
-f32a
-    // c8
-)
+    u8 a,// c5
+}// c6a
+
+// c6b
+packet B {
     // c9
-repeat
-    // c10
-uint16
-    // c11
-Foo
-    // c12
-,
-    // c13
-@calculatedFrom(
-    // c14
-""x y""
-    // c15
-)
-    // c16
-repeat
+    u16 b,// c12a
+    // c12b
+}
+
+root packet P {
     // c17
-int64
-    // c18
-pack
+    u8 K,// c20
+    match K as M {
+        // c25
+        1 : A,
+        1 : B,
+        // c33a
+        // c33b
+    },// c35
+}")).
+Eval vm_compute in ("<<<M1127>>>" ++ check (runes_of_ascii "packet Logon // c1a
+  // c1b
+{ // c2a
+  // c2b
+@tag( 42 // c4
+) // c5
+@rightPad (
+    // c7
+' ' ) @leftPad
+    // c10
+( )
+    // c12
+repeat // c13
+trueish
+    // c14
+{
+    // c15
+string
+    // c16
+T
+    // c17
+, }
     // c19
 ,
     // c20
-@leftPad
-    // c21
-(
-    // c22
-' '
-    // c23
-)
-    // c24
-uint8
-    // c25
-Foo
-    // c26
-,
-    // c27
+} ")).
+Eval vm_compute in ("<<<M1471>>>" ++ check (runes_of_ascii "packet Sub {
+    u8 a,
+    @calculatedFrom(""CRC16"") i16 SubSum,
 }
-    // c28
-packet
-    // c29
-rootA
-    // c30
-{
-    // c31
-f32a
-    // c32
-x
-    // c33
-`two words`
-    // c34
-,
-    // c35
-char
-    // c36
-asx
-    // c37
-@lengthOf(
-    // c38
-falsey
-    // c39
-)
-    // c40
-`u8 x,`
-    // c41
-,
-    // c42
-@lengthOf(
-    // c43
-i64_
-    // c44
-)
-    // c45
-uint16
-    // c46
-chars
-    // c47
-,
-    // c48
-@tag(
-    // c49
-0
-    // c50
-)
-    // c51
-string
-    // c52
-_x
-    // c53
-@calculatedFrom(
-    // c54
-""abc""
-    // c55
-)
-    // c56
-`// not a comment`
-    // c57
-,
-    // c58
+root packet Frame {
+    u16 MsgType,
+    u16 BodyLen @lengthOf(Body),
+    Sub Body,
+    string note,
+    @calculatedFrom(""CRC16"") i16 Checksum,
+    u8 tail,
 }
-    // c59
 ")).
-Eval vm_compute in ("<<<M3823>>>" ++ check (runes_of_ascii "
-root packet
-body
-    {
-	@tag(
-
-255 ) chars 
-calculatedFrom
-
-,
-
-    //	t
-    @rightPad
-	(	'0'
-
-    ) @calculatedFrom(
-""a	b"" 	 // " ++ [128512]%N ++ runes_of_ascii " emoji
-    ) @rightPad
-(
-) stringy@calculatedFrom(
-    ""it's""
-
-    )  // " ++ [128512]%N ++ runes_of_ascii " emoji
-  , repeat
-	string 
-trueish/// triple
-,
-
-@calculatedFrom(
-    // `tick` ""quote"" 'q'
-	""""
-) asx @lengthOf(
-options1
-)  `doc`
-
-    , u32	Logon
-,
-float64	// packet A { u8 x, }
-    i64_
-	@lengthOf(
-    metadata
-
-    ),
-
-@calculatedFrom(
-    ""`tick`""  )
-	chars
-    @lengthOf(
-	len  )  `line1
-line2`
-	, f32a 
-  /// triple
-    	{
-match 
-trueish  as roots
-    { ""1"" :
-body ""// no comment""
-
-    : 
-Packet
-
-,
-
-[42
-,
-	""it's"" , 0
-
-, 	 // " ++ [128512]%N ++ runes_of_ascii " emoji
-
-""it's""  ]
-:
-
-    charz  ,  ""a\""b""
-:  stringy, 
-
-    // a // b
-  	//x
-  }
-
-    ,
-
-    } 
-,uint8x
-{
-    zchar[ 10 
-] As, }  // trailing space 
-      ,	@tag(  0123456789
-	)
-	@rightPad
-	( 
-'0'  ) @calculatedFrom( """"
-)asx 
-@lengthOf(	trueish)
-, 
-}	root packet	trueish
-    {
-	}")).
-Eval vm_compute in ("<<<M1132>>>" ++ check (runes_of_ascii "packet charz { zchar @lengthOf( body) , string
-    BodyLength``
-,
-    float
-`" ++ [233]%N ++ runes_of_ascii "` , @lengthOf( len ) @tag(
-    255
-)@calculatedFrom(	""{,}"" )a1 int `two words` //x
-,
-char[3 ] float @calculatedFrom( ""CRC32"" )  , repeat int32 stringy
-, //
-@tag( 3 )  @tag( 3
-    ) a1
-{ match chars as //x
-roots {
-""it's""  : o
-    ""CRC32"" : stringy ,	0123456789 :Pad ,[
-""a	b"" , """ ++ [128512]%N ++ runes_of_ascii """ ] :
-body // c
-, }, char[ /// triple
-42	] u8x ,char[ 255
-// " ++ [27880; 37322]%N ++ runes_of_ascii "
-//	t
-]
-x_y_z
-@calculatedFrom( ""packet""
-    )
-    ,
-    match body
-as BodyLength
-    { 10
-: zchar,007 :uint8x
-, ""a\""b"" :
-Header,
-""x y"" :chars	007 : f32a //	t
-,} ,
-} , match
-    T	as // trailing space 
-stringy{
-10 :float ,
-    // trailing space 
-    0
-: string_ 10 : crc,
-7 : chars ,7  : body ,	}
-, repeat crc
-`
-` , } MetaData roots {	char[]  string_  `{ , }`,} root packet As {
-    @rightPad	( ' ' ) i64 leftPad @calculatedFrom(  ""abc"" )	`doc` , char[]options1 ,}
-")).
-Eval vm_compute in ("<<<M4332>>>" ++ check (runes_of_ascii "options {
-    o = '\x00';
-}
-
-packet tag {
-    int16 falsey `two words`,
-    /// triple
-    T,
-}
-
-packet asx {
-    match T as falsey {
-        7 : x,
-    },
-    zchar[4294967296] matchKey @calculatedFrom(""`tick`"") `" ++ [233]%N ++ runes_of_ascii "`,
-    @lengthOf(calculatedFrom)
-    // " ++ [128512]%N ++ runes_of_ascii " emoji
-    crc {
-        repeat A {
-            msg_type,
-            repeat char[] zchar `{ , }`,
-            u16 pack,// " ++ [128512]%N ++ runes_of_ascii " emoji
-            u8 metadata @lengthOf(leftPad) `" ++ [28040; 24687; 31867; 22411]%N ++ runes_of_ascii "`,
-        },
-    },
-    msg_type {
-        repeat Foo {
-            match Foo as Pad {
-                [65535] : charz,
-                [""`tick`""] : o,
-                255 : pack,
-            },
-            char[] packetx,
-            zchar[7] i8i8,
-        },//	t
-    },
-    i8 chars,
-}
-
-root packet metadata {
-    match uint8x as u8x {
-        65535 : x_y_z,
-    },
-}
-
-MetaData leftPad {
-    i32 u128,
-}// " ++ [27880; 37322]%N)).
-Eval vm_compute in ("<<<M4442>>>" ++ check (runes_of_ascii "packet BodyLength {
-    @calculatedFrom(""1"")
-    @tag(10)
-    @lengthOf(Pad)
-    char[0123456789] asx `" ++ [233]%N ++ runes_of_ascii "`,
-    char[] msg_type @calculatedFrom(""""),
-    @tag(4294967296)
-    repeat a1 {
-        char[007] Logon `crlf
-        line`,
-        // a // b
-        u32 trueish `u8 x,`,
-        match Z9_ as body {
-            ""1"" : Packet,
-            0 : x,
-        },
-        int16 options1 `" ++ [233]%N ++ runes_of_ascii "`,
-    },
-}
-
+Eval vm_compute in ("<<<M1559>>>" ++ check (runes_of_ascii "// " ++ [27880; 37322]%N ++ runes_of_ascii "
 options {
-    rootA = true;// @lengthOf(
-    uint8x = ' '
-    matchKey = char[];
-    stringy = ' '
-    options1 = 4294967296
+    msg_type = '0'
 }
 
-options {
-    stringy = true
-    chars = ' '
-}
-
-packet T {
-    string Pad @calculatedFrom(""\" ++ [233]%N ++ runes_of_ascii """),//	t
-    repeat MetaDataX {
-        repeat u32 body `line1
-        line2`,
-        string crc @lengthOf(As) `" ++ [28040; 24687; 31867; 22411]%N ++ runes_of_ascii "`,
-    },/// triple
-    repeat float32 Header `a\`,
-    float `a\`,
-}")).
-Eval vm_compute in ("<<<M85>>>" ++ check (runes_of_ascii "packet chars
-{}// c
-packet
-len
-{
-    repeat char[] Foo
-, @rightPad ('0' ) zchar[ 007 ]/// triple
-a1`say ""hi""` , repeat BodyLength  leftPad ,}
-root	packet u8x { f64 lengthOf
-    @calculatedFrom(
-""CRC32""	)
-    ,
-    string
-zchar @lengthOf( int)
-    `crlf
-line` , int calculatedFrom , @lengthOf(As ) match falsey as asx {
-65535: _x
-    [ 1 ] :
-    u 007:	uint8x
-00:	f32a
-, """ ++ [233]%N ++ runes_of_ascii "t" ++ [233]%N ++ runes_of_ascii """ :	Packet ,[ 42 ,""a\""b"" ] : len
-    //x
-    , } , @lengthOf(stringy
-    // " ++ [128512]%N ++ runes_of_ascii " emoji
-    )@calculatedFrom(  ""1"" )repeat A { char[]lengthOf  `it's` , }
-, _x `" ++ [28040; 24687; 31867; 22411]%N ++ runes_of_ascii "` ,
-    @leftPad ('0'
-    ) match Foo as
-crc {10 :
-    trueish
-// " ++ [27880; 37322]%N ++ runes_of_ascii "
-//
-, 42
-:// " ++ [128512]%N ++ runes_of_ascii " emoji
-Pad
-, [4294967296
-,  ""// no comment"" , ""{,}"" ]:
-float
-    ,  } , @lengthOf( u8x ) a1
-// c
-// trailing space 
-@calculatedFrom( ""\" ++ [233]%N ++ runes_of_ascii """ ) // c
-,} 	 ")).
-Eval vm_compute in ("<<<M3602>>>" ++ check (runes_of_ascii "MetaData Logon {
-    int x `u8 x,`,
-    i16 calculatedFrom `say ""hi""`,
-    trueish x_y_z `// not a comment`,
-}
-
-options {
-    len = true;
-}
-
-packet crc {
-    @lengthOf(matchKey)
-    repeat body {
-        uint64 chars,
-        match Packet as float {
-            ""// no comment"" : calculatedFrom,
-        },
-        u64 body,
-        i8i8 lengthOf `doc`,
-    },
-    repeat o,
-    match f32a as int {
-        255 : u8x,
-        ""x y"" : As,
-        ""\" ++ [233]%N ++ runes_of_ascii """ : _x,
-        0 : _x,
-        ""1"" : uint8x,
-    },
-    match falsey as float {
-        [""`tick`""] : string_,
-        10 : u8x,
-        """" : crc,
-        /// triple
-        0 : rootA,
-        ""abc"" : i64_,
-    },
-    @rightPad(' ')
-    repeat float32 o `// not a comment`,
-    o As `a\`,
-}")).
-Eval vm_compute in ("<<<M4041>>>" ++ check (runes_of_ascii "
-//x
-
-packet Packet  {	}	// " ++ [128512]%N ++ runes_of_ascii " emoji
-  packet
-A {	@calculatedFrom(  ""a	b""
-
-)  @tag( 
-      // `tick` ""quote"" 'q'
-
-00
-
-    )
-char[ 4294967296]
-
-    u128	`` ,
-	}  options
-{
-	lengthOf
-	=
-
-""" ++ [233]%N ++ runes_of_ascii "t" ++ [233]%N ++ runes_of_ascii """ 
-;crc
-
-    =	""CRC32"" ;
-} packet
-
-    crc
-
-{ @tag(	255
-
-    )
-@rightPad
-(  )	repeat 
-        //
-      Pad
-
-,
-
-zchar[ 3
-	] charz
-@lengthOf( zchar )`say ""hi""`, 
-repeat 
-Header
-    string_``  // @lengthOf(
-,len @calculatedFrom(
-""`tick`""
-
-) 
-, 
-@tag(
-
-    65535
-)
-    match
-chars
-	as
-msg_type{ 4294967296 :
-
-    roots
-, 
-""" ++ [233]%N ++ runes_of_ascii "t" ++ [233]%N ++ runes_of_ascii """ :_x
-    ,	""CRC32"" : leftPad,// packet A { u8 x, }
-    42	: MetaDataX
-
-, 
-    // a // b
-	// c
-[
-    ""a	b""]
-: i64_/// triple
-""`tick`"" :
-
-MetaDataX ,
-}	,
-    }
-")).
-Eval vm_compute in ("<<<M193>>>" ++ check (runes_of_ascii "options {
-// c
-//x
-u128 = true ; Header // trailing space 
-= ""packet""
-    stringy =""CRC32"" A =
-    '0' ;} packet calculatedFrom  { repeat
-u128
-    Logon ,
-// packet A { u8 x, }
-// " ++ [128512]%N ++ runes_of_ascii " emoji
-}
-packet body { @calculatedFrom( ""\" ++ [233]%N ++ runes_of_ascii """
-)
-    metadata
-`a\`  ,
-// c
-// c
-stringy{
-    //	t
-    uint8 A `tab	here` , repeat
-    u
+packet _x {
     // `tick` ""quote"" 'q'
-    As
-, /// triple
-zchar[
-65535]x_y_z@lengthOf(
-crc ) //
-, }  , @calculatedFrom(
-    ""{,}"" )len /// triple
-@lengthOf(	roots ) ,char[  7 ]BodyLength`{ , }` ,
-    // c
-    int64
-    _x , @calculatedFrom(""it's""// " ++ [27880; 37322]%N ++ runes_of_ascii "
-) match
-pack as As { ""CRC32"": o
-    ,
-    } , zchar[ 4294967296]i64_@calculatedFrom( ""// no comment"" ) ,
-}
-")).
-Eval vm_compute in ("<<<M523>>>" ++ check (runes_of_ascii "packet zchar{
-    i32 zchar @calculatedFrom( ""abc"") `a\` // c
-,Pad Logon `tab	here`
-// c
-// a // b
-,
-// a // b
-/// triple
-@tag(
-    /// triple
-    0 ) Packet{
-x_y_z
-matchKey,
-float64 Logon
-@lengthOf( uint8x ) , } // c
-,
-packetx i64_ `" ++ [28040; 24687; 31867; 22411]%N ++ runes_of_ascii "` ,
-    repeat char[] As	`two words`, } MetaData packetx{ options1 Z9_
-`crlf
-line` , char[] pack
-//
-// `tick` ""quote"" 'q'
-,	string
-charz
-    `// not a comment`,
-    /// triple
-    char[]
-string_
-, // a // b
-asx int //	t
-`u8 x,` ,	} options
-{
-rootA =""a\\""
-leftPad = ' ' ;
-    leftPad= '\x00' ; }MetaData i8i8 { charz // trailing space 
-zchar , string
-    chars // c
-, int8 repeatCount`it's` , }
-")).
-Eval vm_compute in ("<<<M1154>>>" ++ check (runes_of_ascii "// " ++ [27880; 37322]%N ++ runes_of_ascii "
-packet
-leftPad { // a // b
-string As `{ , }`, char[
-42 ] msg_type , @lengthOf( i8i8 ) match
-Foo as matchKey //	t
-{
-1  :chars ,
-65535 : o 7 :
-    calculatedFrom , [65535,  7 , ""a	b""
-    ] :int
-, [
-00 ,
-0 , ""x y"" ,
-    65535//	t
-, """ ++ [128512]%N ++ runes_of_ascii """  ,007,
-""it's"",
-    """" ]
-    :
-Packet
-, """" :	float ,}	,
-u64 Logon
-@calculatedFrom( """ ++ [128512]%N ++ runes_of_ascii """), @calculatedFrom(
-""a	b"" ) pack {float32 charz
-    `line1
-line2` // `tick` ""quote"" 'q'
-, } ,
-} MetaData u128
-    {	repeatCount
-    len
-`" ++ [233]%N ++ runes_of_ascii "`
-, BodyLength//x
-charz
-, u8x trueish  `a\` ,Header msg_type
-`line1
-line2` ,
-    string  stringy , // " ++ [128512]%N ++ runes_of_ascii " emoji
-char[] u128
-    `" ++ [233]%N ++ runes_of_ascii "`, }options { }")).
-Eval vm_compute in ("<<<M1053>>>" ++ check (runes_of_ascii "//	t
-packet len {repeat
-Logon
-    { i16 leftPad, }
-    ,
-@calculatedFrom( ""a\""b"" ) repeat/// triple
-u16
-// trailing space 
-//x
-u,
-@calculatedFrom(
-    // a // b
-    ""abc""
-)
-Header `two words` , u8	pack@calculatedFrom(""" ++ [233]%N ++ runes_of_ascii "t" ++ [233]%N ++ runes_of_ascii """
-    // " ++ [128512]%N ++ runes_of_ascii " emoji
-    )  , } // @lengthOf(
-packet string_
-{ stringy @calculatedFrom( // " ++ [128512]%N ++ runes_of_ascii " emoji
-""it's"" )
-    ,	}packet
-chars
-{
-    // `tick` ""quote"" 'q'
-    match
-matchKey as _x
-{
-    ""abc"" :
-Packet// " ++ [128512]%N ++ runes_of_ascii " emoji
-} , // @lengthOf(
-char Foo `doc` ,match
-    charz as
-    Foo
-    {[ 1  , ""\" ++ [233]%N ++ runes_of_ascii """ ]	: Logon ,}	,@lengthOf(
-pack)/// triple
-Packet ,	} // a // b")).
-Eval vm_compute in ("<<<M3775>>>" ++ check (runes_of_ascii "//	t
-packet len {
-    repeat Logon {
-        i16 leftPad,
-    },
-    @calculatedFrom(""a\""b"")
-    repeat u16 u,
-    @calculatedFrom(""abc"")
-    Header `two words`,
-    u8 pack @calculatedFrom(""" ++ [233]%N ++ runes_of_ascii "t" ++ [233]%N ++ runes_of_ascii """),
-}// @lengthOf(
-
-packet string_ {
-    stringy @calculatedFrom(""it's""),
-}
-
-packet chars {
-    // `tick` ""quote"" 'q'
-    match matchKey as _x {
-        ""abc"" : Packet,
-        // " ++ [128512]%N ++ runes_of_ascii " emoji
-    },// @lengthOf(
-    char Foo `doc`,
-    match charz as Foo {
-        [1, ""\" ++ [233]%N ++ runes_of_ascii """] : Logon,
-    },
-    @lengthOf(pack)
-    /// triple
-    Packet,
-}// a // b")).
-Eval vm_compute in ("<<<M1181>>>" ++ check (runes_of_ascii "  options
-{	Z9_ = ""// no comment"" Foo
-= ""\n""
-    // c
-    i64_
-    = false _x = """ ++ [128512]%N ++ runes_of_ascii """ ; }packet pack { zchar[4294967296 ] float@lengthOf(repeatCount ) , match //x
-Header as len{ [""`tick`"" ] :charz ""it's"": MetaDataX ""it's"" : string_,[	""a	b"" , ""\n"",	1 ]
-    : zchar} , } packet uint8x // trailing space 
-{ @tag(
-007)repeat
-    calculatedFrom  `two words`// c
-,} packet uint8x {
-i16
-    trueish @lengthOf( Z9_) // " ++ [27880; 37322]%N ++ runes_of_ascii "
-, @calculatedFrom(""a\""b""
-    )@lengthOf(u8x ) roots , uint64 chars@lengthOf(tag )//
-`` , }
-")).
-Eval vm_compute in ("<<<M3586>>>" ++ check (runes_of_ascii "
-// top
-		packet 	 // c0a
-	// c0b
-B	// c1
-      {  // c2a
-  // c2b
-  u8 	 // c3
-		a  // c4a
-  // c4b
-	,
-    // c5
-}	// c6
-
-  root
-    packet
-P 	 // c9
-    {  u8 	 // c11
-	K // c12a
-  // c12b
-	,	// c13
-    match 
-// c14
-  K  
-  // c15
-    as
-
-Body 	 // c17a
-	  // c17b
-  { 
-// c18
-	1 
-    // c19
-  :B  // c21
-  	,}
-    // c23
-		,  u16 // c25
-	  L	@lengthOf(	// c27a
-      // c27b
-      Body  // c28a
-
-  // c28b
-	)	// c29
-  ,  // c30a
-	// c30b
-	}	// c31a
-	// c31b
-")).
-Eval vm_compute in ("<<<M4340>>>" ++ check (runes_of_ascii "root packet i64_ {
-    packetx {
-        string zchar @calculatedFrom(""`tick`"") `
-                `,
-        zchar[1] metadata `doc`,
-        Foo @calculatedFrom(""CRC32""),
-    },
-    char[] roots `crlf
-        line`,
-    @calculatedFrom(""it's"")
-    char rootA,
-    @tag(7)
-    charz o `it's`,// a // b
-    char[007] msg_type @lengthOf(x_y_z),
-    repeat zchar[007] repeatCount `say ""hi""`,
-    match i64_ as rootA {
-        [""abc""] : T,
-    },
-    repeat chars,
-}")).
-Eval vm_compute in ("<<<M1355>>>" ++ check (runes_of_ascii "
-MetaData asx// @lengthOf(
-{
-// " ++ [27880; 37322]%N ++ runes_of_ascii "
-// `tick` ""quote"" 'q'
-string roots
-    `line1
-line2` ,}
-    // `tick` ""quote"" 'q'
-    packet a1  {  repeat x
-`" ++ [28040; 24687; 31867; 22411]%N ++ runes_of_ascii "`,}
-    MetaData pack {int rootA	`" ++ [233]%N ++ runes_of_ascii "`	,
-repeatCount
-    i8i8 , char[]
-    a1
-    , int16/// triple
-zchar // a // b
-, int32
-    falsey ,/// triple
-a1
-    matchKey `it's` , }
-MetaData  u128 { int8 A
-`" ++ [28040; 24687; 31867; 22411]%N ++ runes_of_ascii "`
-,
-} options{ rootA =	uint8	; u8x	=
-'0'
-    //
-    ;o
-= int32  ; MetaDataX = """ ++ [128512]%N ++ runes_of_ascii """ ; Pad = true }
-")).
-Eval vm_compute in ("<<<M439>>>" ++ check (runes_of_ascii "MetaData
-/// triple
-//	t
-matchKey {
-    MetaDataX
-trueish `say ""hi""` , char[] stringy `u8 x,` ,
-}
-    /// triple
-    packet
-zchar {
-u64 a1
-,
-@leftPad  (
-    )match zchar as MetaDataX//
-{
-//
-// `tick` ""quote"" 'q'
-""a\\"" : x_y_z} , @leftPad ('\x00'
-)
-match lengthOf as _x
-    // " ++ [27880; 37322]%N ++ runes_of_ascii "
-    {
-7:  leftPad , } ,//
-@calculatedFrom(""" ++ [28040; 24687]%N ++ runes_of_ascii """ )	@lengthOf(
-crc
-)
-//x
-//
-match BodyLength as calculatedFrom  {
-255: x_y_z ""// no comment""
-:T }, }
-")).
-Eval vm_compute in ("<<<M595>>>" ++ check (runes_of_ascii "root packet
-    body { // `tick` ""quote"" 'q'
-x_y_z @calculatedFrom(
-""\" ++ [233]%N ++ runes_of_ascii """  ) `" ++ [233]%N ++ runes_of_ascii "` ,
-@lengthOf( stringy ) asx `crlf
-line` , @calculatedFrom(""{,}"")	float { repeat chars `doc` ,
-} , }root
+    @tag(00)
+    @tag(1)
+    char[] a1,
     // packet A { u8 x, }
-    packet trueish // " ++ [27880; 37322]%N ++ runes_of_ascii "
-{ uint8x `tab	here`
-    , @calculatedFrom(
-    ""it's"" )
-    u16 trueish `{ , }`
-, @lengthOf( // " ++ [128512]%N ++ runes_of_ascii " emoji
-stringy )
-i8i8{ u16 MetaDataX``, string matchKey ,
-    //	t
-    }  ,}
-")).
-Eval vm_compute in ("<<<M3938>>>" ++ check (runes_of_ascii "options {
-    chars = '\x00'
-    metadata = true;
-    x_y_z = string;
-    // trailing space 
-}
-
-packet Logon {
-    repeat char[10] packetx `" ++ [28040; 24687; 31867; 22411]%N ++ runes_of_ascii "`,
-}
-
-options {
-    stringy = 4294967296
-    As = ""x y"";
-    f32a = ' ';
-}
-
-packet chars {
-    @calculatedFrom(""x y"")
-    packetx @calculatedFrom(""" ++ [128512]%N ++ runes_of_ascii """),
-    i8i8 @lengthOf(u),
-    @rightPad(' ')
-    @lengthOf(msg_type)
-    @lengthOf(Z9_)
-    T stringy,
-}")).
-Eval vm_compute in ("<<<M1224>>>" ++ check (runes_of_ascii "root packet stringy{ repeat stringy
-`
-` , @rightPad
-(
-    '\x00')	repeat A `tab	here`
-    ,@tag( 0)
-@rightPad
-( ) repeat As
-u128 `tab	here`	,@calculatedFrom( ""CRC32"" ) string_	{ repeat i8 o  ,
-zchar[ 42	]	stringy `doc`
-,  char[]
-int
-    ,match trueish as zchar  { [
-//
-//	t
-""" ++ [233]%N ++ runes_of_ascii "t" ++ [233]%N ++ runes_of_ascii """,
-    3] :
-asx,}	, } ,
-    }
-    options { roots =	65535  ;
-    } MetaData float {  Foo f32a ,}
-")).
-Eval vm_compute in ("<<<M347>>>" ++ check (runes_of_ascii "MetaData packetx {
-// `tick` ""quote"" 'q'
-// `tick` ""quote"" 'q'
-float64 _x , msg_type calculatedFrom // a // b
-`say ""hi""`  , metadata Foo `a\` ,falsey asx `two words` , char[	4294967296 ]calculatedFrom ,
-int32 options1 , }options {
-crc
-    =
-    '\x00' ;
-charz = ""it's"" ; BodyLength =
-    ""\" ++ [233]%N ++ runes_of_ascii """ body =//
-int8
-    ; }
-MetaData len{
-    char[ 42 ] Logon`tab	here`,	}")).
-Eval vm_compute in ("<<<M1157>>>" ++ check (runes_of_ascii "MetaData
-rootA
-{ }
-// a // b
-// c
-root
-    packet i8i8 { roots	@lengthOf(
-    // trailing space 
-    metadata )
-`a\` , @leftPad( ) @calculatedFrom( """ ++ [233]%N ++ runes_of_ascii "t" ++ [233]%N ++ runes_of_ascii """ ) @rightPad (
-) repeat	Packet// " ++ [27880; 37322]%N ++ runes_of_ascii "
-, @lengthOf(
-falsey) f64 x
-    , len @calculatedFrom( ""// no comment"" ) ,	@leftPad (  )
-    Pad { int64
-    stringy // a // b
-``, i8 charz, Header x  , }	, }
-")).
-Eval vm_compute in ("<<<M45>>>" ++ check (runes_of_ascii "
-packet stringy
-{	falsey @lengthOf( MetaDataX )`crlf
-line`
-,match tag as uint8x{
-""a\""b"" : charz
-    , 00 :
-    repeatCount , 10
-: Header
-    ""a	b""
     /// triple
-    : Pad
-,65535
-    :
-metadata
-    ,
-},
-    @calculatedFrom( ""a\""b""
-    )
-    //x
-    char[
-    255 ]falsey , x_y_z
-@calculatedFrom(  ""packet"")
-    `tab	here` , }
-")).
-Eval vm_compute in ("<<<M4289>>>" ++ check (runes_of_ascii "
-
-  packet
-calculatedFrom	{ Logon o,
-	}	// packet A { u8 x, }
-	MetaData
-As 
-    // a // b
-  // " ++ [27880; 37322]%N ++ runes_of_ascii "
-{uint32 repeatCount `{ , }`  ,zchar[
-
-/// triple
-    00
-
-]
-    T `say ""hi""` ,	zchar[ 1 
-] float `two words`
-, char[
-42	]
-
-    stringy
-`// not a comment`
-	, zchar[  007]
-	chars	`tab	here`
-
-,
-
-    int16 
-stringy, 
 }
 
-")).
-Eval vm_compute in ("<<<M4333>>>" ++ check (runes_of_ascii "root
-	packet
-
-    Foo// " ++ [128512]%N ++ runes_of_ascii " emoji
-    {
-    }
-options	{ 
-  // a // b
-  tag  // `tick` ""quote"" 'q'
-    =//	t
-""""
-    ;
-u8x  =	zchar[  0
-
-    ] }MetaData
-
-int
-
-    {
-zchar[	10 ]lengthOf
-	``
-,i64 u8x,  MetaDataX 
-pack// `tick` ""quote"" 'q'
-`crlf
-line` ,Logon charz
-	`crlf
-line`
-
-, 
-    // a // b
-    	}
-")).
-Eval vm_compute in ("<<<M1585>>>" ++ check (runes_of_ascii "root packet Foo // " ++ [128512]%N ++ runes_of_ascii " emoji
-{ } options {
-    // a // b
-    tag // `tick` ""quote"" 'q'
-= //	t
-""""
-    ; u8x = zchar[0  ] }
-MetaData
-    int {zchar[ 10]
-lengthOf	`` , i64 u8x`// not a comment` ,MetaDataX pack// `tick` ""quote"" 'q'
-`crlf
-line`
-, Logon charz charz `crlf
-line`
-    ,
-    // a // b
-    }
-")).
-Eval vm_compute in ("<<<M4061>>>" ++ check (runes_of_ascii "root packet string_ {
-    zchar[1] stringy @lengthOf(charz) `u8 x,`,
-    repeat falsey {
-        i8 u128 @lengthOf(u128) `line1
-        line2`,
-        float @calculatedFrom(""a	b""),
-        chars,
-        char[0] Header,
-    },
-    i8i8 `// not a comment`,//
+packet float {
 }
 
-packet T {
-    repeat lengthOf,
+//	t
+// packet A { u8 x, }
+MetaData Foo {
 }")).
-Eval vm_compute in ("<<<M1501>>>" ++ check (runes_of_ascii "root packet Foo // " ++ [128512]%N ++ runes_of_ascii " emoji
-{ } options {
-    // a // b
-    tag // `tick` ""quote"" 'q'
-= //	t
-""""
-    ; u8x = zchar[0  ] }
-MetaData
-    { int zchar[ 10]
-lengthOf	`` , i64 u8x`// not a comment` ,MetaDataX pack// `tick` ""quote"" 'q'
-`crlf
-line`
-, Logon charz `crlf
-line`
-    ,
-    // a // b
-    }
+Eval vm_compute in ("<<<M488>>>" ++ check (runes_of_ascii "options
+{
+matchKey = 42/// triple
+x='0' ;
+// packet A { u8 x, }
+//
+charz
+=
+// packet A { u8 x, }
+// trailing space 
+true  ; } MetaData BodyLength
+{
+uint8
+pack,1 zchar[ ]float ,  float32 x_y_z `` ,u32
+_x,i16 body  , }
 ")).
-Eval vm_compute in ("<<<M1516>>>" ++ check (runes_of_ascii "root packet Foo // " ++ [128512]%N ++ runes_of_ascii " emoji
-{ } options {
-    // a // b
-    tag // `tick` ""quote"" 'q'
-= //	t
-""""
-    ; u8x = zchar[0  ] }
-MetaData
-    int {zchar[ ]10
-lengthOf	`` , i64 u8x`// not a comment` ,MetaDataX pack// `tick` ""quote"" 'q'
-`crlf
-line`
-, Logon charz `crlf
-line`
-    ,
-    // a // b
-    }
+Eval vm_compute in ("<<<M463>>>" ++ check (runes_of_ascii "options
+{
+matchKey = 42/// triple
+x='0' ;
+// packet A { u8 x, }
+//
+charz
+=
+// packet A { u8 x, }
+// trailing space 
+true  ; } MetaData {
+BodyLength
+uint8
+pack,zchar[ 1]float ,  float32 x_y_z `` ,u32
+_x,i16 body  , }
 ")).
-Eval vm_compute in ("<<<M1504>>>" ++ check (runes_of_ascii "root packet Foo // " ++ [128512]%N ++ runes_of_ascii " emoji
-{ } options {
-    // a // b
-    tag // `tick` ""quote"" 'q'
-= //	t
-""""
-    ; u8x = zchar[0  ] }
-MetaData
-    int zchar[ 10]
-lengthOf	`` , i64 u8x`// not a comment` ,MetaDataX pack// `tick` ""quote"" 'q'
-`crlf
-line`
-, Logon charz `crlf
-line`
-    ,
-    // a // b
-    }
+Eval vm_compute in ("<<<M526>>>" ++ check (runes_of_ascii "options
+{
+matchKey = 42/// triple
+x='0' ;
+// packet A { u8 x, }
+//
+charz
+=
+// packet A { u8 x, }
+// trailing space 
+true  ; } MetaData BodyLength
+{
+uint8
+pack,zchar[ 1]float ,  float32 x_y_z `` u32
+_x,i16 body  , }
 ")).
-Eval vm_compute in ("<<<M1410>>>" ++ check (runes_of_ascii " packet Foo // " ++ [128512]%N ++ runes_of_ascii " emoji
-{ } options {
-    // a // b
-    tag // `tick` ""quote"" 'q'
-= //	t
-""""
-    ; u8x = zchar[0  ] }
-MetaData
-    int {zchar[ 10]
-lengthOf	`` , i64 u8x`// not a comment` ,MetaDataX pack// `tick` ""quote"" 'q'
-`crlf
-line`
-, Logon charz `crlf
-line`
-    ,
-    // a // b
-    }
+Eval vm_compute in ("<<<M486>>>" ++ check (runes_of_ascii "options
+{
+matchKey = 42/// triple
+x='0' ;
+// packet A { u8 x, }
+//
+charz
+=
+// packet A { u8 x, }
+// trailing space 
+true  ; } MetaData BodyLength
+{
+uint8
+pack, 1]float ,  float32 x_y_z `` ,u32
+_x,i16 body  , }
 ")).
-Eval vm_compute in ("<<<M1559>>>" ++ check (runes_of_ascii "root packet Foo // " ++ [128512]%N ++ runes_of_ascii " emoji
-{ } options {
-    // a // b
-    tag // `tick` ""quote"" 'q'
-= //	t
-""""
-    ; u8x = zchar[0  ] }
-MetaData
-    int {zchar[ 10]
-lengthOf	`` , i64 u8x`// not a comment` , pack// `tick` ""quote"" 'q'
-`crlf
-line`
-, Logon charz `crlf
-line`
-    ,
-    // a // b
-    }
-")).
-Eval vm_compute in ("<<<M4123>>>" ++ check (runes_of_ascii "packet stringy {
-    @lengthOf(Packet)
-    lengthOf @calculatedFrom(""it's""),
-}
-
-MetaData x_y_z {
-    asx rootA `it's`,
-    float32 trueish,
-    o Packet,
-}
-
-options {
-    leftPad = true;
-    len = 7;
-    Pad = 42;
-    chars = 65535;
-    A = 4294967296
-}
-
-MetaData int {
-}")).
-Eval vm_compute in ("<<<M274>>>" ++ check (runes_of_ascii "packet falsey
-    { //	t
-_x { T@calculatedFrom(
-""" ++ [28040; 24687]%N ++ runes_of_ascii """
-),int64 roots , match
-    float as a1 { 1//	t
-:falsey  , [
-    // c
-    ""CRC32""  ,""a\""b"" ,
-    255 , 65535 , 42	,0123456789]
-:
-pack
-, }, } , pack
-    { falsey//x
-, } , packetx // packet A { u8 x, }
-, }
-")).
-Eval vm_compute in ("<<<M4184>>>" ++ check (runes_of_ascii "packet
-
-    zchar
-
-    // @lengthOf(
-  {
-    @tag(
-
-    255
-)	match
-	u128  as
-	roots  {
-0123456789
-
-://x
-u }
-,zchar[ 
-4294967296	]
-    charz // " ++ [128512]%N ++ runes_of_ascii " emoji
-
-  `tab	here`, 	 // " ++ [27880; 37322]%N ++ runes_of_ascii "
-match uint8x
-
-    as 
-leftPad{
-
-10
-:
-
-    _x  //x
-  	,
-    }
-
-,	}")).
-Eval vm_compute in ("<<<M82>>>" ++ check (runes_of_ascii "packet
-x { char matchKey
-    @lengthOf( x_y_z ) //
-, }packet	trueish  {
-    @tag( 255
-    )
-char calculatedFrom @lengthOf( Header ) , }
-    MetaData options1
-    // trailing space 
-    { }
-packet MetaDataX {
-    }
-    packet trueish{	}")).
-Eval vm_compute in ("<<<M3334>>>" ++ check (runes_of_ascii "// top
-packet // c0
-calculatedFrom // c1
-{ // c2
-@tag( // c3
-4294967296 // c4
-) // c5
-u // c6
-msg_type // c7
-, // c8
-char[ // c9
-3 // c10
-] // c11
-crc // c12
-@lengthOf( // c13
-len // c14
-) // c15
-`u8 x,` // c16
-, // c17
-} // c18
-")).
-Eval vm_compute in ("<<<M1246>>>" ++ check (runes_of_ascii "root
-    //
-    packet Foo {float32 Logon `doc` , } MetaData x_y_z
-    // `tick` ""quote"" 'q'
-    { Header
-Z9_ `line1
-line2`  , o crc ,// " ++ [27880; 37322]%N ++ runes_of_ascii "
-string //x
-Header , _x packetx`say ""hi""`,} packet stringy {
-uint8 i64_ ,
-    }
-
-")).
-Eval vm_compute in ("<<<M2382>>>" ++ check (runes_of_ascii "MetaData Packet { }packet	asx  { @lengthOf( asx) falsey`crlf
-line`
-,
-    }
-    pac'1'ket x	{uint32// @lengthOf(
-rootA	,u32 options1 `say ""hi""` , @tag( 7
-    )// packet A { u8 x, }
-msg_type @lengthOf(
-stringy	)	, }
-
-")).
-Eval vm_compute in ("<<<M2380>>>" ++ check (runes_of_ascii "MetaData Packet { }packet	asx  { @lengthOf( asx) falsey`crlf
-line`
-,
-    }
-    packet x	{uint32// @lengthOf(
-rootA	,u32 options1 `say ""hi""` `, @tag( 7
-    )// packet A { u8 x, }
-msg_type @lengthOf(
-stringy	)	, }
-
-")).
-Eval vm_compute in ("<<<M2317>>>" ++ check (runes_of_ascii "MetaData Packet { }packet	asx  { @lengthOf( asx) falsey`crlf
-line`
-,
-    }
-    packet x	{uint32// @lengthOf(
-rootA	,u32 `say ""hi""` options1 , @tag( 7
-    )// packet A { u8 x, }
-msg_type @lengthOf(
-stringy	)	, }
-
-")).
-Eval vm_compute in ("<<<M2370>>>" ++ check (runes_of_ascii "MetaData Packet { }packet	asx  { @lengthOf( asx) falsey`crlf
-line`
-,
-    }
-    packet x	{uint32// @lengthOf(
-rootA	,u32 options1 `say ""hi""` , @tag( 7
-    )// packet A { u8 x, }
-msg_type @lengthOf(
-stringy	)	, 
-
-")).
-Eval vm_compute in ("<<<M2295>>>" ++ check (runes_of_ascii "MetaData Packet { }packet	asx  { @lengthOf( asx) falsey`crlf
-line`
-,
-    }
-    packet x	{// @lengthOf(
-rootA	,u32 options1 `say ""hi""` , @tag( 7
-    )// packet A { u8 x, }
-msg_type @lengthOf(
-stringy	)	, }
-
-")).
-Eval vm_compute in ("<<<M221>>>" ++ check (runes_of_ascii "options{ len = // " ++ [27880; 37322]%N ++ runes_of_ascii "
-true
-    ;
-MetaDataX = zchar[ 00//
-] lengthOf =  '0'; Pad	=""packet""  ; x_y_z
-    // a // b
-    = ""a\""b""; } packet calculatedFrom{
-repeat
-matchKey // packet A { u8 x, }
-Foo
-,
-    }
-")).
-Eval vm_compute in ("<<<M3428>>>" ++ check (runes_of_ascii "packet Inner { u8 a
+Eval vm_compute in ("<<<M1342>>>" ++ check (runes_of_ascii "packet Inner { u8 a
     // c4
 ,
     // c5
@@ -2193,441 +978,268 @@ x
     // c16
 , // c17
 } ")).
-Eval vm_compute in ("<<<M1286>>>" ++ check (runes_of_ascii "root packet
-BodyLength { } options
-    { A = true ;
-    //	t
-    Packet =
-    i32 A =//x
-char[] }
-    packet
-    Z9_ { }
-root packet f32a
-{
-    //x
-    chars
-    // a // b
-    float ,	}
-")).
-Eval vm_compute in ("<<<M911>>>" ++ check (runes_of_ascii "MetaData leftPad	{ char[] x_y_z `say ""hi""` , }  options { string_
-    // " ++ [128512]%N ++ runes_of_ascii " emoji
-    = ""CRC32""
-} options {_x = ""1"" ;Header= f64; }packet lengthOf
-{ }	packet x_y_z
-{
-//x
-// " ++ [27880; 37322]%N ++ runes_of_ascii "
-} //")).
-Eval vm_compute in ("<<<M605>>>" ++ check (runes_of_ascii "packet lengthOf { @leftPad
-('\x00'
-    ) char[
-4294967296]f32a , repeat char[] zchar ,
-_x,// " ++ [27880; 37322]%N ++ runes_of_ascii "
-leftPad zchar ,	A,	char[
-// `tick` ""quote"" 'q'
-// a // b
-3]
-u ,T `it's`	,}")).
-Eval vm_compute in ("<<<M370>>>" ++ check (runes_of_ascii "packet
-    rootA // packet A { u8 x, }
-{ tag
-`u8 x,`
-, char[]	o	,
-    i8i8	@lengthOf(
-    // @lengthOf(
-    stringy ) `// not a comment`
-    ,
-    // " ++ [128512]%N ++ runes_of_ascii " emoji
-    }
-")).
-Eval vm_compute in ("<<<M602>>>" ++ check (runes_of_ascii "MetaData len{ uint16
-    packetx
-,
-i64 Header , f64 x_y_z`two words`, // c
-MetaDataX
-Packet ,
-trueish int ,int32
-    trueish ,
-    // " ++ [27880; 37322]%N ++ runes_of_ascii "
-    }
-packet u8x {}
-")).
-Eval vm_compute in ("<<<M1144>>>" ++ check (runes_of_ascii "packet f32a {
-@calculatedFrom(	""\" ++ [233]%N ++ runes_of_ascii """ )@calculatedFrom(""" ++ [128512]%N ++ runes_of_ascii """ )
-@lengthOf( int ) u8x @calculatedFrom( ""\" ++ [233]%N ++ runes_of_ascii """),
-float32
-    leftPad`doc` ,
-crc MetaDataX `" ++ [233]%N ++ runes_of_ascii "`, }")).
-Eval vm_compute in ("<<<M4109>>>" ++ check (runes_of_ascii "root packet stringy {
-    @tag(7)
-    @tag(1)
-    @rightPad('\x00')
-    Foo x `crlf
-        line`,
-    @calculatedFrom(""a	b"")
-    roots `it's`,
-}")).
-Eval vm_compute in ("<<<M877>>>" ++ check (runes_of_ascii "MetaData float {i64_ Z9_`tab	here` ,
-    pack// " ++ [27880; 37322]%N ++ runes_of_ascii "
-falsey, uint8x float ,// c
-zchar[ 4294967296
-] x_y_z , int16 chars`" ++ [233]%N ++ runes_of_ascii "`,
-x_y_z stringy , }")).
-Eval vm_compute in ("<<<M3419>>>" ++ check (runes_of_ascii "// top
-root // c0
-packet P
-    // c2
-{ // c3
-repeat
-    // c4
-char cs
-    // c6
-, u8 x // c9a
-  // c9b
-, // c10a
-  // c10b
-}
-    // c11
-")).
-Eval vm_compute in ("<<<M4364>>>" ++ check (runes_of_ascii "
-MetaData
-	u128
-	{  char[ 255
-
-]
-	_x
-	`{ , }`
-, string leftPad
-
-,u8 A
-    ,	zchar[ 0123456789 ] Foo
-
-    , char[] 
-As `{ , }` ,}
-")).
-Eval vm_compute in ("<<<M1713>>>" ++ check (runes_of_ascii "root packet /// triple
-rootA {	i32
-MetaDataX@calculatedFrom( ""CRC32"" ) `line1
-line2` , } MetaData BodyLength {
-u8
-rootA, } } // c")).
-Eval vm_compute in ("<<<M1684>>>" ++ check (runes_of_ascii "root packet /// triple
-rootA {	i32
-MetaDataX@calculatedFrom( ""CRC32"" ) `line1
-line2` , } BodyLength MetaData {
-u8
-rootA, } // c")).
-Eval vm_compute in ("<<<M4252>>>" ++ check (runes_of_ascii "options { BodyLength
-=
-    '\x00' }
-	options
-{ }options{  Pad =
-
-""\" ++ [233]%N ++ runes_of_ascii """msg_type 
-= uint32
-
-    ;
-	a1 ='0'Foo
-	=' '
-;
-
-    }
-")).
-Eval vm_compute in ("<<<M392>>>" ++ check (runes_of_ascii "root packet
-roots {
-    BodyLength asx
-    ,a1//
-,@tag(7
-    )zchar[
-42 ]
-BodyLength , // " ++ [27880; 37322]%N ++ runes_of_ascii "
-x_y_z `u8 x,`
-,f64 packetx ,}")).
-Eval vm_compute in ("<<<M1737>>>" ++ check (runes_of_ascii "root packet /// triple
-rootA {	i32
-MetaDataX@calculatedFrom( ""CRC32"" ) `line1
-line2` , } MetaData a" ++ [769]%N ++ runes_of_ascii "b {
-u8
-rootA, } // c")).
-Eval vm_compute in ("<<<M1791>>>" ++ check (runes_of_ascii "packet
-    Pad // a // b
-{ { i8i8 @calculatedFrom( ""a	b"") `u8 x,` ,
-} options{ float// " ++ [128512]%N ++ runes_of_ascii " emoji
-= f64 i64_
-=//	t
-00 }
-")).
-Eval vm_compute in ("<<<M2314>>>" ++ check (runes_of_ascii "MetaData Packet { }packet	asx  { @lengthOf( asx) falsey`crlf
-line`
-,
-    }
-    packet x	{uint32// @lengthOf(
-rootA	,")).
-Eval vm_compute in ("<<<M1862>>>" ++ check (runes_of_ascii "packet
-    Pad // a // b
-{ i8i8 @calculatedFrom( ""a	b"") `u8 x,` ,
-} options{ float// " ++ [128512]%N ++ runes_of_ascii " emoji
-= f64 i64_
-00//	t
-= }
-")).
-Eval vm_compute in ("<<<M1667>>>" ++ check (runes_of_ascii "root packet /// triple
-rootA {	i32
-MetaDataX@calculatedFrom( ""CRC32"" )  , } MetaData BodyLength {
-u8
-rootA, } // c")).
-Eval vm_compute in ("<<<M1652>>>" ++ check (runes_of_ascii "root packet /// triple
-rootA {	i32
-MetaDataX ""CRC32"" ) `line1
-line2` , } MetaData BodyLength {
-u8
-rootA, } // c")).
-Eval vm_compute in ("<<<M3588>>>" ++ check (runes_of_ascii "MetaData 
-        // a // b
-//	t
-    rootA
-    {  }
-	options	//
-{
-	tag // `tick` ""quote"" 'q'
-
-  =
-    3 ;
-}")).
-Eval vm_compute in ("<<<M1194>>>" ++ check (runes_of_ascii "//	t
-options
-    { // c
-}MetaData asx
-{float64 x_y_z
-,
-}  options	{// packet A { u8 x, }
-stringy = '0' ;
-}")).
-Eval vm_compute in ("<<<M4036>>>" ++ check (runes_of_ascii "options {
-    // c
-    matchKey = ""a\""b"";
-    a1 = uint16
-    charz = char[]
-    a1 = u8;
-    As = 00;
-}")).
-Eval vm_compute in ("<<<M3359>>>" ++ check (runes_of_ascii "packet calculatedFrom { @tag( 4294967296 ) u msg_type , char[ 3 // c
-] crc @lengthOf( len ) `u8 x,` , }")).
-Eval vm_compute in ("<<<M1800>>>" ++ check (runes_of_ascii "packet
-    Pad // a // b
-{ i8i8  ""a	b"") `u8 x,` ,
-} options{ float// " ++ [128512]%N ++ runes_of_ascii " emoji
-= f64 i64_
-=//	t
-00 }
-")).
-Eval vm_compute in ("<<<M2984>>>" ++ check (runes_of_ascii "packet A {
-  match k as n {
-    [1, 22, ""c c"", 4, 5, ""f"", 7, 8, ""i"", 10, 11] : B,
-    2 : C
-  },
-}")).
-Eval vm_compute in ("<<<M6>>>" ++ check (runes_of_ascii "MetaData metadata{
-leftPad i64_ ,
-    // " ++ [128512]%N ++ runes_of_ascii " emoji
-    u8
-    stringy `
-` , char[] trueish , }
-")).
-Eval vm_compute in ("<<<M3235>>>" ++ check (runes_of_ascii "packet Logon { @tag( 42 ) @rightPad ( ' ' )
-// c
-@leftPad ( ) repeat trueish { string T , } , }")).
-Eval vm_compute in ("<<<M2035>>>" ++ check (runes_of_ascii "root
-packet crc
-    { f32a @c@lengthOfalculatedFrom( """ ++ [233]%N ++ runes_of_ascii "t" ++ [233]%N ++ runes_of_ascii """ )
-    `say ""hi""`, lengthOf `` ,  }")).
-Eval vm_compute in ("<<<M339>>>" ++ check (runes_of_ascii "MetaData Z9_ {
-//	t
-// " ++ [27880; 37322]%N ++ runes_of_ascii "
-u128 Foo  , lengthOf uint8x
-    // " ++ [128512]%N ++ runes_of_ascii " emoji
-    `say ""hi""` ,
-    }")).
-Eval vm_compute in ("<<<M2934>>>" ++ check (runes_of_ascii "packet A {
-  match k as n {
-    [""a"", ""bb"", 007, ""d"", ""e"", 66, ""g""] : B,
-    2 : C
-  },
-}")).
-Eval vm_compute in ("<<<M2769>>>" ++ check (runes_of_ascii "`// not a comment` { lengthOf float64 f64 false int32 repeat char[] match u64 @rightPad")).
-Eval vm_compute in ("<<<M3580>>>" ++ check (runes_of_ascii "packet A {
+Eval vm_compute in ("<<<M1798>>>" ++ check (runes_of_ascii "packet A {
     Inner {
         match k as n {
-            [1] : B,
+            [
+                1, 22, 007, 4, 5,
+                66, 7, 8, 9, 10,
+                11
+            ] : B,
         },
     },
 }")).
-Eval vm_compute in ("<<<M1409>>>" ++ check (runes_of_ascii "root packet SimpleMessage {
-	uint16 MsgType `" ++ [28040; 24687; 31867; 22411]%N ++ runes_of_ascii "`,
-	string JsonBody `Json" ++ [23383; 31526; 20018; 28040; 24687; 20307]%N ++ runes_of_ascii "`,
+Eval vm_compute in ("<<<M703>>>" ++ check (runes_of_ascii "// c
+packet i64_ {	char[] calculatedFrom , } packet
+trueish  {@calculatedFrom(
+""a\\"" o ) { i32 falsey@lengthOf( uint8x ),
+} , } // `tick` ""quote"" 'q'
+options {// c
+Z9_ = ' '//
+}
+")).
+Eval vm_compute in ("<<<M1305>>>" ++ check (runes_of_ascii "// top
+MetaData
+    // c0
+_x
+    // c1
+{
+    // c2
+zchar[
+    // c3
+4294967296
+    // c4
+]
+    // c5
+lengthOf
+    // c6
+`// not a comment`
+    // c7
+,
+    // c8
+}
+    // c9
+")).
+Eval vm_compute in ("<<<M1513>>>" ++ check (runes_of_ascii "packet lengthOf {
+    @leftPad()
+    // a // b
+    @tag(7)
+    u8 BodyLength,
+    char[1] chars `
+    `,
+    @tag(00)
+    char[0] Z9_ @lengthOf(float) `u8 x,`,
 }")).
-Eval vm_compute in ("<<<M177>>>" ++ check (runes_of_ascii "MetaData Header
-{ trueish u8x , zchar[ 42 ] Packet
-    , char asx	,// @lengthOf(
-}")).
-Eval vm_compute in ("<<<M3302>>>" ++ check (runes_of_ascii "packet o { @tag( 42 // c
-) repeat x { char[ 0123456789 ] i64_ , } , } options { }")).
-Eval vm_compute in ("<<<M3948>>>" ++ check (runes_of_ascii "packet A {
-    match k as n {
-        [1, 22, ""c c""] : B,
-        2 : C,
+Eval vm_compute in ("<<<M346>>>" ++ check (runes_of_ascii "packet BodyLength {repeat u128 charz ,
+i64 i64_
+@lengthOf(
+asx )
+,
+repeat
+    i64_ { repeat int `u8 x,` , //	t
+},repeat float32
+pack
+`" ++ [233]%N ++ runes_of_ascii "` ,
+    }")).
+Eval vm_compute in ("<<<M200>>>" ++ check (runes_of_ascii "
+root packet	f32a {char[]x_y_z `doc` ,@calculatedFrom(	""CRC32""
+) A tag `u8 x,`
+,
+int , } options { Packet =""1""
+    ; } options {  } 	 ")).
+Eval vm_compute in ("<<<M198>>>" ++ check (runes_of_ascii "// c
+options{
+    //
+    repeatCount = '0';leftPad =
+' ';
+// c
+/// triple
+msg_type
+    = char[ 10
+]
+;}
+packet
+    Packet {//x
+}
+")).
+Eval vm_compute in ("<<<M1544>>>" ++ check (runes_of_ascii "packet A {
+    Inner {
+        u8 x `a
+        b`,
+        Deep {
+            u8 y `a
+            b`,
+        },
     },
 }")).
-Eval vm_compute in ("<<<M3427>>>" ++ check (runes_of_ascii "packet Inner {
-    u8 a,
-}
-root packet P {
-    repeat Inner items,
-    u8 x,
-}
-")).
-Eval vm_compute in ("<<<M201>>>" ++ check (runes_of_ascii "packet A { Logon {
-    repeat  char[ 42 ]falsey `a\`  ,repeat int32 T , } ,}")).
-Eval vm_compute in ("<<<M2172>>>" ++ check (runes_of_ascii "root
-    // `tick` ""quote"" 'q'
-    packet As { trueish trueish Packet , }
-")).
-Eval vm_compute in ("<<<M3045>>>" ++ check (runes_of_ascii "packet A {
-    B b `tab
-	x`,
-    B `tab
-	x`,
-    repeat B bs `tab
-	x`,
+Eval vm_compute in ("<<<M632>>>" ++ check (runes_of_ascii "MetaData
+    // trailing space 
+    matchKey
+{ u64 chars // a // b
+,char[] lengthOf `// not a comment`
+    , , //	t
 }")).
-Eval vm_compute in ("<<<M3393>>>" ++ check (runes_of_ascii "// c
-MetaData _x { zchar[ 4294967296 ] lengthOf `// not a comment` , }")).
-Eval vm_compute in ("<<<M2883>>>" ++ check (runes_of_ascii "packet A {
+Eval vm_compute in ("<<<M593>>>" ++ check (runes_of_ascii "MetaData
+    // trailing space 
+    {
+matchKey u64 chars // a // b
+,char[] lengthOf `// not a comment`
+    , //	t
+}")).
+Eval vm_compute in ("<<<M966>>>" ++ check (runes_of_ascii "packet A {
+    match k as n {
+        ""x\
+y"" : B,
+        [""x\
+y"", 1] : C,
+        [1,2,3,4,5,""x\
+y""] : D,
+    },
+}")).
+Eval vm_compute in ("<<<M250>>>" ++ check (runes_of_ascii "
+MetaData	Logon {	zchar[ 10 ]float `" ++ [233]%N ++ runes_of_ascii "` , BodyLength Z9_ , float32 o `a\` ,uint64 roots `two words` // " ++ [27880; 37322]%N ++ runes_of_ascii "
+,  }
+")).
+Eval vm_compute in ("<<<M880>>>" ++ check (runes_of_ascii "packet A {
   match k as n {
-    [""a"", ""bb"", 007] : B
+    [""a"", ""bb"", ""c c"", ""d"", ""e"", ""f"", ""g"", ""h"", ""i"", ""j""] : B
     2 : C
   },
 }")).
-Eval vm_compute in ("<<<M4348>>>" ++ check (runes_of_ascii "  root 
-    // `tick` ""quote"" 'q'
-	packet As
+Eval vm_compute in ("<<<M1258>>>" ++ check (runes_of_ascii "packet calculatedFrom {
+// c
+@tag( 4294967296 ) u msg_type , char[ 3 ] crc @lengthOf( len ) `u8 x,` , }")).
+Eval vm_compute in ("<<<M1521>>>" ++ check (runes_of_ascii "
+root packet  x_y_z
 
-{ 
-Packet
-
-    ,}
-")).
-Eval vm_compute in ("<<<M2835>>>" ++ check (runes_of_ascii "string , ( i16 @lengthOf( uint64 : string char[ repeat true zchar[")).
-Eval vm_compute in ("<<<M2813>>>" ++ check (runes_of_ascii "msg_type ""// no comment"" u8 char[ ] string u64 f64 true } char[]")).
-Eval vm_compute in ("<<<M4051>>>" ++ check (runes_of_ascii "
-
-  // trailing space 
-  packet chars	{string
-
-    len
-, }")).
-Eval vm_compute in ("<<<M366>>>" ++ check (runes_of_ascii "
-packet Logon{ match
-    float as trueish { 3 : int } , }
-
-")).
-Eval vm_compute in ("<<<M744>>>" ++ check (runes_of_ascii "packet msg_type
-    { zchar[00 ]
-    _x
-, } // @lengthOf(")).
-Eval vm_compute in ("<<<M1948>>>" ++ check (runes_of_ascii "
-packet	As { @calculatedFrom(//x
-""{,}""	)lengthO" ++ [0]%N ++ runes_of_ascii "f , } 	 ")).
-Eval vm_compute in ("<<<M2180>>>" ++ check (runes_of_ascii "root
-    // `tick` ""quote"" 'q'
-    packet As { trueish")).
-Eval vm_compute in ("<<<M1918>>>" ++ check (runes_of_ascii "
-packet	As { @calculatedFrom(//x
-:	)lengthOf , } 	 ")).
-Eval vm_compute in ("<<<M520>>>" ++ check (runes_of_ascii "MetaData	float
 {
-    //
-    i8
-T, } // @lengthOf(")).
-Eval vm_compute in ("<<<M3158>>>" ++ check (runes_of_ascii "packet A {} packet B {} MetaData M {} options {}")).
-Eval vm_compute in ("<<<M3901>>>" ++ check (runes_of_ascii "
-MetaData
-    M  {}  // c
-MetaData N {
-	}	// d
-")).
-Eval vm_compute in ("<<<M1758>>>" ++ check (runes_of_ascii "options { }options }  { // `tick` ""quote"" 'q'")).
-Eval vm_compute in ("<<<M734>>>" ++ check (runes_of_ascii "//x
-MetaData u{
-    //
-    int64 x_y_z , }
-")).
-Eval vm_compute in ("<<<M3959>>>" ++ check (runes_of_ascii "
-options
+	    // a // b
+	// packet A { u8 x, }
+    	repeat
+falsey 	 // " ++ [27880; 37322]%N ++ runes_of_ascii "
+`" ++ [233]%N ++ runes_of_ascii "`
+	,
+    } ")).
+Eval vm_compute in ("<<<M1685>>>" ++ check (runes_of_ascii "packet	A {  u32 
+crc@calculatedFrom(	""x\
+y""  ) ,
+	@calculatedFrom(
 
-    {
-u8x =  3 
+    ""x\
+y"")
+u8
 
-    // c
-	}
+y  ,
+    }
 ")).
-Eval vm_compute in ("<<<M1755>>>" ++ check (runes_of_ascii "options { }as {  } // `tick` ""quote"" 'q'")).
-Eval vm_compute in ("<<<M3202>>>" ++ check (runes_of_ascii "MetaData zchar { zchar[ 3 ] Pad // c
+Eval vm_compute in ("<<<M1136>>>" ++ check (runes_of_ascii "packet Logon { @tag( // c
+42 ) @rightPad ( ' ' ) @leftPad ( ) repeat trueish { string T , } , }")).
+Eval vm_compute in ("<<<M1168>>>" ++ check (runes_of_ascii "packet Logon { @tag( 42 ) @rightPad ( ' ' ) @leftPad ( ) repeat trueish { string T , } // c
 , }")).
-Eval vm_compute in ("<<<M1102>>>" ++ check (runes_of_ascii "options {int =//x
-""\" ++ [233]%N ++ runes_of_ascii """ // " ++ [128512]%N ++ runes_of_ascii " emoji
-} //")).
-Eval vm_compute in ("<<<M992>>>" ++ check (runes_of_ascii "packet As {	repeat uint64
-Foo
-    , }")).
-Eval vm_compute in ("<<<M3153>>>" ++ check (runes_of_ascii "options { a = 1 // c b = 2; // d}")).
-Eval vm_compute in ("<<<M3013>>>" ++ check (runes_of_ascii "root packet A {
-    u8 x `a
-b`,
-}")).
-Eval vm_compute in ("<<<M2838>>>" ++ check (runes_of_ascii "mHV)h@t@{RF2uS0T]{?I<`nQp>O|RT0-")).
-Eval vm_compute in ("<<<M1368>>>" ++ check (runes_of_ascii "// trailing space 
+Eval vm_compute in ("<<<M1502>>>" ++ check (runes_of_ascii "packet o {
+    @tag(42)
+    repeat x {
+        char[0123456789] i64_,
+    },
+}
+
 options {
 }")).
-Eval vm_compute in ("<<<M4393>>>" ++ check (runes_of_ascii "packet
-
-chars{ repeat
-pack ,}
-")).
-Eval vm_compute in ("<<<M2795>>>" ++ check (runes_of_ascii "<|FXC|?SbA8$TVGm\{-S%&F;R{X5")).
-Eval vm_compute in ("<<<M4204>>>" ++ check (runes_of_ascii "packet A
-
-    {  }// c" ++ [12]%N ++ runes_of_ascii "
-")).
-Eval vm_compute in ("<<<M642>>>" ++ check (runes_of_ascii "packet u{
-    } // a // b")).
-Eval vm_compute in ("<<<M746>>>" ++ check (runes_of_ascii "// a // b
- // @lengthOf(")).
-Eval vm_compute in ("<<<M3383>>>" ++ check (runes_of_ascii "packet
+Eval vm_compute in ("<<<M827>>>" ++ check (runes_of_ascii "packet A {
+  match k as n {
+    [""a"", ""bb"", ""c c"", ""d"", ""e"", ""f""] : B,
+    2 : C
+  },
+}")).
+Eval vm_compute in ("<<<M843>>>" ++ check (runes_of_ascii "packet A {
+  match k as n {
+    [1, ""bb"", 007, ""d"", 5, ""f"", 7] : B
+    2 : C
+  },
+}")).
+Eval vm_compute in ("<<<M1219>>>" ++ check (runes_of_ascii "packet o { @tag( 42 )
 // c
-lengthOf { }")).
-Eval vm_compute in ("<<<M4368>>>" ++ check (runes_of_ascii "packet lengthOf {
-}// c")).
-Eval vm_compute in ("<<<M2050>>>" ++ check (runes_of_ascii "@tag( A { u64 pack, }")).
-Eval vm_compute in ("<<<M2664>>>" ++ check (runes_of_ascii "options { a = [1]; }")).
-Eval vm_compute in ("<<<M3147>>>" ++ check (runes_of_ascii "// c x
+repeat x { char[ 0123456789 ] i64_ , } , } options { }")).
+Eval vm_compute in ("<<<M1875>>>" ++ check (runes_of_ascii "MetaData matchKey {
+    u64 chars,
+    char[] lengthOf `?// not a comment`,//	t
+}")).
+Eval vm_compute in ("<<<M1738>>>" ++ check (runes_of_ascii "packet A {
+    B b `a
+    b`,
+    B `a
+    b`,
+    repeat B bs `a
+    b`,
+}")).
+Eval vm_compute in ("<<<M1802>>>" ++ check (runes_of_ascii "MetaData As
+{
+
+}
+MetaData asx
+	{
+char[	007]
+    Logon `two words` , }
+")).
+Eval vm_compute in ("<<<M1992>>>" ++ check (runes_of_ascii "// top
+root packet P {
+    // c3a
+    // c3b
+    string s,// c6
+}
+// c7")).
+Eval vm_compute in ("<<<M1518>>>" ++ check (runes_of_ascii "packet A {
+    B b `
+    `,
+    B `
+    `,
+    repeat B bs `
+    `,
+}")).
+Eval vm_compute in ("<<<M837>>>" ++ check (runes_of_ascii "packet A { Inner { match k as n { [1,22,007,4,5,66] : B, }, }, }")).
+Eval vm_compute in ("<<<M811>>>" ++ check (runes_of_ascii "packet A { Inner { match k as n { [1,22,007,4] : B, }, }, }")).
+Eval vm_compute in ("<<<M1979>>>" ++ check (runes_of_ascii "
+packet o{
+    char[
+    0123456789
+]asx
+	`doc`
+	, } ")).
+Eval vm_compute in ("<<<M340>>>" ++ check (runes_of_ascii "packet int
+    { }
+    packet u128 {
+    }
+")).
+Eval vm_compute in ("<<<M1111>>>" ++ check (runes_of_ascii "MetaData zchar { zchar[
+// c
+3 ] Pad , }")).
+Eval vm_compute in ("<<<M963>>>" ++ check (runes_of_ascii "root packet A {
+    u8 x `tab
+	x`,
+}")).
+Eval vm_compute in ("<<<M1698>>>" ++ check (runes_of_ascii "options {
+    // c
+    u8x = 3
+}")).
+Eval vm_compute in ("<<<M1022>>>" ++ check (runes_of_ascii "packet A {
+ u8 x `d" ++ [8239]%N ++ runes_of_ascii "`, // c" ++ [8239]%N ++ runes_of_ascii "
+}")).
+Eval vm_compute in ("<<<M1686>>>" ++ check (runes_of_ascii "  packet 
+A {
+
+} 
+// c" ++ [8239]%N ++ runes_of_ascii "
+ 
+")).
+Eval vm_compute in ("<<<M1299>>>" ++ check (runes_of_ascii "packet lengthOf
+// c
+{ }")).
+Eval vm_compute in ("<<<M757>>>" ++ check (runes_of_ascii "0p7n2r0zu^V9,x""![jU")).
+Eval vm_compute in ("<<<M1026>>>" ++ check (runes_of_ascii "// c" ++ [8287]%N ++ runes_of_ascii "
 packet A {
 }")).
-Eval vm_compute in ("<<<M3067>>>" ++ check (runes_of_ascii "// c" ++ [12288]%N ++ runes_of_ascii "
-packet A {
-}")).
-Eval vm_compute in ("<<<M3168>>>" ++ check (runes_of_ascii "packet A { // a
- }")).
-Eval vm_compute in ("<<<M3109>>>" ++ check (runes_of_ascii "packet A {
-}// c" ++ [8287]%N)).
-Eval vm_compute in ("<<<M1428>>>" ++ check (runes_of_ascii "root packet Foo")).
-Eval vm_compute in ("<<<M2707>>>" ++ check ([65533; 65533; 65533; 65533; 65533; 18; 7; 65533]%N ++ runes_of_ascii "p" ++ [65533]%N ++ runes_of_ascii "e~" ++ [65533]%N)).
-Eval vm_compute in ("<<<M1909>>>" ++ check (runes_of_ascii "
-packet	As")).
-Eval vm_compute in ("<<<M2843>>>" ++ check (runes_of_ascii "] repeat")).
-Eval vm_compute in ("<<<M2470>>>" ++ check (runes_of_ascii "'\x00'")).
-Eval vm_compute in ("<<<M2672>>>" ++ check (runes_of_ascii "u8 x,")).
-Eval vm_compute in ("<<<M2446>>>" ++ check (runes_of_ascii "true")).
-Eval vm_compute in ("<<<M2499>>>" ++ check (runes_of_ascii "//")).
-Eval vm_compute in ("<<<M2504>>>" ++ check (runes_of_ascii """""")).
-Eval vm_compute in ("<<<M2684>>>" ++ check ([65279]%N)).
+Eval vm_compute in ("<<<M1028>>>" ++ check (runes_of_ascii "packet A {
+}// c" ++ [11]%N)).
+Eval vm_compute in ("<<<M758>>>" ++ check (runes_of_ascii "char char[")).
+Eval vm_compute in ("<<<M725>>>" ++ check (runes_of_ascii "
+	 ")).
